@@ -12,1135 +12,2388 @@ Definition show_fres (r : fres) : string :=
   end.
 Definition check (rs : list rune) : string := digest (show_fres (format_res rs)).
 Definition full (rs : list rune) : string := show_fres (format_res rs).
-Eval vm_compute in ("<<<M1941>>>" ++ check (runes_of_ascii "options {
-    lengthOf = ""CRC32"";
-    stringy = uint16;
-    u8x = float32;
-    x_y_z = zchar[007]
-    repeatCount = ""a\""b"";
-    // c
-    //	t
-}
-
-MetaData trueish {
-    As roots `" ++ [28040; 24687; 31867; 22411]%N ++ runes_of_ascii "`,
-    char[00] Packet,
-}
-
-root packet roots {
-    int8 Logon,
-    body @lengthOf(lengthOf) `
-        `,
-    @rightPad('0')
-    Packet @calculatedFrom(""x y"") `a\`,
-    @lengthOf(T)
-    match matchKey as _x {
-        """ ++ [128512]%N ++ runes_of_ascii """ : stringy,
-        4294967296 : x_y_z,
-        ""\n"" : leftPad,
-        [42, 42, ""it's"", ""\n"", ""// no comment""] : asx,
-    },
-    char[10] BodyLength,
-    @leftPad('0')
-    char[] Z9_ `crlf
-        line`,
-    string falsey,
-    int16 asx @calculatedFrom(""x y""),
-    u128 Z9_ `it's`,
-    @rightPad('0')
-    Packet {
-        // " ++ [128512]%N ++ runes_of_ascii " emoji
-        int64 float,
-        repeat leftPad {
-            repeat Z9_ {
-                match T as lengthOf {
-                    ""`tick`"" : msg_type,
-                    ""1"" : x_y_z,
-                    0 : chars,
-                },
-            },
-            repeat trueish {
-                zchar[255] crc `doc`,
-                char Logon @lengthOf(_x),
-                //
-                a1 `doc`,
-                //x
-                //	t
-            },
-            match msg_type as zchar {
-                ""it's"" : body,
-                """ ++ [28040; 24687]%N ++ runes_of_ascii """ : u,
-            },
-        },
-    },
-}
-
-packet As {
-    @leftPad('\x00')
-    @tag(255)
-    @lengthOf(o)
-    zchar[42] string_ @calculatedFrom(""a\""b"") `" ++ [28040; 24687; 31867; 22411]%N ++ runes_of_ascii "`,
-    char[] repeatCount @lengthOf(calculatedFrom),
-    metadata @calculatedFrom(""abc"") `two words`,
-    // `tick` ""quote"" 'q'
-    // c
-    @lengthOf(matchKey)
-    match packetx as falsey {
-        007 : A,
-        ""1"" : packetx,
-        //
-        7 : charz,
-        [65535] : stringy,
-        65535 : a1,
-        [""a	b"", 1] : Logon,
-        // a // b
-        // " ++ [128512]%N ++ runes_of_ascii " emoji
-    },
-}")).
-Eval vm_compute in ("<<<M1544>>>" ++ check (runes_of_ascii "// top
-options // c0
-{ // c1a
-  // c1b
-StringPrefixLenType
-    // c2
-= // c3a
-  // c3b
-u8 // c4a
-  // c4b
-; ArrayPrefixLenType // c6
-= // c7
-u32 // c8
-;
-    // c9
-} packet Quote // c12
-{ // c13
-u32 // c14a
-  // c14b
-Ref , // c16a
-  // c16b
-InNote74 { // c18
-u8 pad0 // c20a
-  // c20b
-, // c21
-}
-    // c22
-, } packet
-    // c25
-Ack { repeat string
-    // c29
-OrderId // c30
-, // c31
-} // c32
-packet // c33a
-  // c33b
-Logout // c34
-{
-    // c35
-zchar[ // c36a
-  // c36b
-7
-    // c37
-]
-    // c38
-venue , // c40a
-  // c40b
-char[ // c41
-12 // c42
-] // c43a
-  // c43b
-Px ,
-    // c45
-string // c46
-count // c47a
-  // c47b
-,
-    // c48
-char[] // c49
-Tail // c50a
-  // c50b
-, // c51
-char[] Qty // c53
-, // c54
-Quote // c55
-, // c56
-} // c57
-root // c58a
-  // c58b
-packet Trade
-    // c60
-{ // c61a
-  // c61b
-zchar[
-    // c62
-2 // c63a
-  // c63b
-] // c64a
-  // c64b
-price // c65
-,
-    // c66
-u32
-    // c67
-x , u32 // c70
-lastPx
-    // c71
-@lengthOf( // c72
-Body // c73a
-  // c73b
-)
-    // c74
-, // c75a
-  // c75b
-match // c76a
-  // c76b
-x as
-    // c78
-Body // c79
-{ // c80
-148 : // c82
-Ack // c83a
-  // c83b
-, // c84
-171 // c85a
-  // c85b
-:
-    // c86
-Quote // c87
-, 15
-    // c89
-:
-    // c90
-Logout // c91a
-  // c91b
-,
-    // c92
-}
-    // c93
-, // c94
-}
-    // c95
-")).
-Eval vm_compute in ("<<<M1657>>>" ++ check (runes_of_ascii "
-
-  /// triple
-  MetaData
-	roots 
-{ 
-string
-
-Z9_
-    `say ""hi""` 
-    //
-	  , 
-o tag
-, 
-char[
-
-4294967296	// " ++ [128512]%N ++ runes_of_ascii " emoji
-  	] body
-	`crlf
-line` ,
-
-    _x
-
-lengthOf
-`tab	here`  ,	}
-options {
-repeatCount
-
-    =	""x y""
-
-;T =""" ++ [28040; 24687]%N ++ runes_of_ascii """}
-/// triple
-		packet  int
-{ @calculatedFrom(
-
-""CRC32"")
-
-    int64 f32a ,	roots
-	@calculatedFrom(
-	""it's""
-
-    ) `` , 
-@calculatedFrom( ""a\\""  ) @tag(  007
-)char[ 255	//	t
-    ] crc  @lengthOf(
-
-    packetx  )
-
-,
-
-    match Pad
-
-    as
-
-    string_{
-	[""\" ++ [233]%N ++ runes_of_ascii """	, 3
-// " ++ [27880; 37322]%N ++ runes_of_ascii "
-    	]:
-lengthOf
-,  [ 42 ] :
-
-// packet A { u8 x, }
-	  // packet A { u8 x, }
-  body ,	7
-
-    :
-	i8i8,
-	0123456789  :
-    options1 
-,//x
-[
-00]:  Z9_  ,  }// @lengthOf(
-    	,float, // " ++ [27880; 37322]%N ++ runes_of_ascii "
-		} MetaData zchar { 
-zchar[
-    3
-    ]options1`line1
-line2`,
-	}
-packet 
-asx{
-zchar[
-42// " ++ [128512]%N ++ runes_of_ascii " emoji
-    	]
-    falsey
-
-,
-
-    @calculatedFrom(
-
+Eval vm_compute in ("<<<M518>>>" ++ check (runes_of_ascii "packet Header {
+f32
+    lengthOf `doc` ,string	Z9_ @lengthOf( uint8x )`doc` , u32
+calculatedFrom `" ++ [233]%N ++ runes_of_ascii "`,	u32  i64_ , match rootA as falsey
+// `tick` ""quote"" 'q'
+// 50% %s
+{ 4294967296
+:Packet	,[ 7 , ""a\""b"", 007  , 4294967296
+]:// 50% %s
+pack 65535:
+zchar  }
+    ,repeat MetaDataX{ match crc as roots { 3
+: matchKey ,
+[""a\\"" , ""`tick`""
+    ] :
+matchKey 42  :  roots, //x
+65535 : MetaDataX ,
 ""1""
-
-)
-repeat
-
-string 
-As`" ++ [233]%N ++ runes_of_ascii "`
-
-    ,char[]
-    trueish, 
-int32 
-Header
-
+:repeatCount
     ,
-    repeat
-stringy
-`crlf
-line` ,
-	string
-
-x_y_z	,f64
-
-T 
-    //x
+    4294967296
+: falsey
+, } ,	} , match	Foo as float{ 10 :
+lengthOf 255
+    :	x_y_z	,	7 :
+o 00: i64_ ,
+    },
+repeat
+A stringy // a // b
+`{ , }` // c
+, Header {
+    u8x trueish	,char
+roots @lengthOf( leftPad )
+,
+match T as// " ++ [128512]%N ++ runes_of_ascii " emoji
+msg_type{0123456789 : As , }
+    ,
+    falsey  @lengthOf(
+    trueish
+)// trailing space 
+, } , }
+    MetaData crc // a // b
+{
+uint16 A
+, string
+BodyLength
+,i16 x_y_z ,
+}
+packet u{ @rightPad // 50% %s
+(
+'\x00' )	zchar[ 3
+    ] Logon @calculatedFrom( ""x y"") , @lengthOf(rootA )
+/// triple
+/// triple
+repeat f32
+falsey , @lengthOf(	chars
+) @calculatedFrom( //	t
+""// no comment"" ) repeat
+    metadata
+,
+f32a  @lengthOf(a1 ), @rightPad
+( '\x00'
+) f64	i64_@calculatedFrom(""a	b""
+), @calculatedFrom( ""\n"" ) uint32 BodyLength@calculatedFrom(
+// trailing space 
+// 50% %s
+""" ++ [233]%N ++ runes_of_ascii "t" ++ [233]%N ++ runes_of_ascii """	) `" ++ [28040; 24687; 31867; 22411]%N ++ runes_of_ascii "`, @lengthOf( Logon
+    // packet A { u8 x, }
+    )
+    // 50% %s
+    u16 T
+    @calculatedFrom(
+    ""a\\"")
+    `crlf
+line`, string Packet/// triple
+, char[] len
+``	, } root packet T{@calculatedFrom(
+//	t
+//	t
+""`tick`""  ) char[ 3
+// a // b
+// " ++ [128512]%N ++ runes_of_ascii " emoji
+]
+msg_type
+,
+lengthOf
+`it's`
+,@lengthOf( msg_type )
+    char leftPad
+`u8 x,`
+, // 50% %s
+repeat u64
+body , } packet i8i8
+    {  @lengthOf( string_)  repeat char[] x ,
+@calculatedFrom( ""CRC32"" ) u16 A
+    // @lengthOf(
+    @lengthOf( string_ ) `// not a comment`, i32 zchar // " ++ [128512]%N ++ runes_of_ascii " emoji
+`a\`,match  roots as i64_ {
+[ 4294967296,
+""abc""
+    ,
+""x y"" ,""a	b"" , ""a	b""
+    ] :Z9_
+[""// no comment""
+,
+""\n""
+    //
+    , 42
+,1	, ""\" ++ [233]%N ++ runes_of_ascii """	, 1 ,7 , 3	] : Header , // c
+[ """ ++ [128512]%N ++ runes_of_ascii """
+, ""\" ++ [233]%N ++ runes_of_ascii """
+, ""\" ++ [233]%N ++ runes_of_ascii """
+    ,00
+, """ ++ [233]%N ++ runes_of_ascii "t" ++ [233]%N ++ runes_of_ascii """,
+    1 ,
+00
+, 3
+] : A ,}, char[10] a1 , }")).
+Eval vm_compute in ("<<<M596>>>" ++ check (runes_of_ascii "options
+{ }  options
+{
+o = uint64 // " ++ [128512]%N ++ runes_of_ascii " emoji
+u =u8 ; charz
+=  00// c
+}packet //	t
+BodyLength{ match u// a // b
+as uint8x
+    { 65535 : // 50% %s
+MetaDataX // " ++ [27880; 37322]%N ++ runes_of_ascii "
+,[""CRC32""
+,
+0// a // b
+,
+65535 ,""CRC32"" , ""\n""	]: Foo ,[ 65535 , """ ++ [233]%N ++ runes_of_ascii "t" ++ [233]%N ++ runes_of_ascii """, ""// no comment""
+    // c
+    ,0123456789
+    ,  """ ++ [28040; 24687]%N ++ runes_of_ascii """,	0 , ""a	b"" // " ++ [128512]%N ++ runes_of_ascii " emoji
+,0123456789 ] : Logon ,
+[ ""{,}"" ,// trailing space 
+1
+]:
+a1, [ """ ++ [128512]%N ++ runes_of_ascii """ ]// a // b
+:	int, 65535 :
+    // packet A { u8 x, }
+    i8i8 , }
+    ,
+repeat
+Packet i8i8 `// not a comment` // " ++ [128512]%N ++ runes_of_ascii " emoji
+, repeat A A	`doc` ,  char[65535 ] roots
+@calculatedFrom(""packet"" ) , repeat int32 trueish ,// trailing space 
+Z9_ body `
+`
+    // " ++ [27880; 37322]%N ++ runes_of_ascii "
+    , @rightPad('0'
+// " ++ [27880; 37322]%N ++ runes_of_ascii "
+// trailing space 
+) i8i8 , }packet
+    Pad { @rightPad
+// packet A { u8 x, }
+// @lengthOf(
+(
+    '\x00'
+    ) match
+i8i8 as
+    Foo {
+//x
+//	t
+0123456789 : As , ""\" ++ [233]%N ++ runes_of_ascii """ : i64_ 3
+// 50% %s
+// a // b
+: len 42: f32a ,// packet A { u8 x, }
+[1 , """ ++ [233]%N ++ runes_of_ascii "t" ++ [233]%N ++ runes_of_ascii """, ""a\""b""
+    ,
+    42
+    ,  007
+, 4294967296 ,
+    // @lengthOf(
+    7
+    ] :o ,
+[007 , 10]
+    // " ++ [27880; 37322]%N ++ runes_of_ascii "
+    :u8x ,
+} , match _x as u128 {
+7
+    : stringy , 1
+: packetx
+, ""1""
+    :	charz , 42 : MetaDataX
+, ""\" ++ [233]%N ++ runes_of_ascii """ : _x	,	[
+3
+    ,
+""`tick`"" ] : BodyLength }
+,
+@tag( 007  )
+@tag(
+    1 )@tag( 10 )
+    u16 packetx `u8 x,` ,@rightPad
+    ( '0')
+    u128	{
+    Foo {  repeat Foo msg_type ,
+repeat char[ 7]i64_ , u@calculatedFrom( ""\" ++ [233]%N ++ runes_of_ascii """) , }
+    ,  zchar[	3
+]
+    // @lengthOf(
+    Foo `" ++ [233]%N ++ runes_of_ascii "` ,u128
+    // " ++ [128512]%N ++ runes_of_ascii " emoji
+    , }
+//	t
 // `tick` ""quote"" 'q'
 ,
-uint8x
-@lengthOf(	charz	) 
-`a\`  , 
-}
-
-")).
-Eval vm_compute in ("<<<M1916>>>" ++ check (runes_of_ascii "
-
-  options { LittleEndian=false; 
-FixedStringPadFromLeft= false
-    ;	FixedStringPadChar= ' ' ;
-
-    } packet	Fill {	uint16
-
-    Qty
-
-    ,uint64
-
-clOrdID,
-
+char[ 10 ] // packet A { u8 x, }
+body//
+, } packet _x{ @lengthOf(
+    trueish)@leftPad('0'
+    ) int32 As // a // b
+, options1
+    {repeat //
+int  { uint16 u // " ++ [128512]%N ++ runes_of_ascii " emoji
+,zchar
+`a\`  ,char[]
+    trueish ,
+}	,
+//x
+// @lengthOf(
+},
+//
+//	t
+int ,
+@tag( 65535 ) char[] roots , }")).
+Eval vm_compute in ("<<<M776>>>" ++ check (runes_of_ascii "packet msg_type {
+repeat stringy Header`` , @leftPad ( '\x00'
+    )repeat leftPad ,
 repeat
-	i64 Flags
-    , 
-}	packet Ack{zchar[
-
-    7]
-
-    clOrdID ,
-	u64 
-lastPx
-,char[] Note ,
-
-repeat
-Fill
-	,
-
-    int32
-	count,	}
-
-    packet
-    Quote
-
-    {  u8
-	venue
-	,
-	InRef40 {	char[]
-    Qty , }
-, 
-zchar[
-	5 
-]	Flags
-, @rightPad 
-(
-	'\x00') char[
-12  ]  msgKind , 
-}  packet
-
-    Logout
-	{
-    InSym79 { int32
-Qty
-,
-
-    Fill ,char[
-3	] x,
-    repeat
-InNote29 {
-
-    i16
-price
-	,
-    Ack ,
-
-    f64  x,
-    zchar[	8
-
-] count
-
-,
-
-}
-    ,
-
-    } 
-,
-    }
-root
-    packet  Logon {	zchar[1 ]
-
-sym	, u32  count	,  u16  tag7 @lengthOf(
-
-    Body)
-
-,	match
-
-count  as Body 
-{ 
-[  122
-	, 152
-
-    ]
-
-    : 
-Ack,
-	118
-    : Logout, 61 :Quote,	161  :
-
-Fill ,}
-	,
-    u32 Acct
-
-    @calculatedFrom( ""CR\
-C32""	) ,}
-")).
-Eval vm_compute in ("<<<M343>>>" ++ check (runes_of_ascii "packet
-Pad{
-    } options { _x
-= false
+f32a
+    ,	@calculatedFrom(
+""it's""
+) @tag(
+    255 ) match roots as trueish
+{ 7 :
+    tag ,
+},  repeat zchar[ // @lengthOf(
+0 ] repeatCount
 /// triple
 // trailing space 
-;} MetaData	repeatCount{char[ 10 ]  As `it's`
-, T metadata `say ""hi""` , u16
-matchKey ,  }packet u128{f32
-    As@calculatedFrom( ""packet"") `a\` , repeat
-// packet A { u8 x, }
-// " ++ [128512]%N ++ runes_of_ascii " emoji
-char[ 7 ]
-// packet A { u8 x, }
+, string	f32a,
+string body , @calculatedFrom("""" )uint64 f32a ,
+    } packet asx {  leftPad
+    ``
+    //	t
+    , @rightPad ( '0' )
+//
 // `tick` ""quote"" 'q'
-T `say ""hi""`,
-    @lengthOf(
-    // c
-    rootA )u64 //
-trueish `{ , }` , repeat char[
-3 ] MetaDataX ,
-    repeat float64  i64_ ,i16
-    charz
-    ,u8 trueish @lengthOf(
-    int
-    )`u8 x,`
-    ,
-    @leftPad ( '0' ) match
-Header
-as
-f32a { [  007
-]
-:
-i8i8
-, ""a	b""	://x
-As ,
-[ ""\n"" ]  :	zchar ,
-    007:
-a1 ,	0123456789 : falsey
-, } , repeat float64 stringy	`a\`, } packet
-    MetaDataX
-{ roots
-    // @lengthOf(
-    leftPad `a\`, }")).
-Eval vm_compute in ("<<<M1911>>>" ++ check (runes_of_ascii "options {
-    crc = uint8
-}
-
-packet len {
-    uint8x @calculatedFrom(""x y""),
-    @lengthOf(rootA)
-    @lengthOf(body)
-    @calculatedFrom(""x y"")
-    Packet @calculatedFrom(""\n"") `
-        `,
-    Packet,
-    repeat i8 Z9_,
-    @tag(255)
-    falsey `
-        `,
-    i64 int `line1
-        line2`,
-    @calculatedFrom(""\n"")
-    @leftPad()
-    @calculatedFrom(""abc"")
-    // packet A { u8 x, }
-    BodyLength,
-    uint8 u,
-    @calculatedFrom(""a\""b"")
-    @lengthOf(metadata)
-    @rightPad(' ')
-    // packet A { u8 x, }
-    char[10] f32a,
-}
-
-packet repeatCount {
-}
-
-options {
-    string_ = i32;
-    o = ""a	b"";
-    i8i8 = ""a\""b"";
-    uint8x = uint16;
-}")).
-Eval vm_compute in ("<<<M336>>>" ++ check (runes_of_ascii "root
-packet  lengthOf { @lengthOf(
-    i64_ ) string repeatCount
-    @calculatedFrom( """ ++ [28040; 24687]%N ++ runes_of_ascii """
-)
-    `doc` ,repeat
-char[]	f32a `two words` //x
-, @lengthOf( //x
-i64_) char[]a1 ,//
-match float as	BodyLength	{
-"""" // " ++ [27880; 37322]%N ++ runes_of_ascii "
-:tag , """ ++ [28040; 24687]%N ++ runes_of_ascii """ : roots
-, ""// no comment""
+int8 leftPad , @rightPad( '0' )asx @lengthOf( // @lengthOf(
+falsey )
+    , @tag(// a // b
+00 ) // `tick` ""quote"" 'q'
+u32 pack
+    ,@tag(
+    007
+)repeat stringy repeatCount `" ++ [28040; 24687; 31867; 22411]%N ++ runes_of_ascii "`, @lengthOf( roots ) u16 pack @lengthOf( roots
+    ) , @calculatedFrom( ""1"" )
+    @tag( 1 )
+match calculatedFrom as
+pack {
+""a\\""
     :
-A ,
-} , metadata , repeat // `tick` ""quote"" 'q'
-char[
-0123456789 ]
-a1 `a\`, @leftPad (
-    '\x00'
-    )
-    zchar lengthOf ,
-    repeat
-    // a // b
-    char[] calculatedFrom
-    // @lengthOf(
-    , @rightPad( '\x00' ) @rightPad (
-    '\x00' // " ++ [27880; 37322]%N ++ runes_of_ascii "
-)
-    i8
-    BodyLength ,	}
-options{ } options { }
-")).
-Eval vm_compute in ("<<<M155>>>" ++ check (runes_of_ascii "packet T {
-    @lengthOf( MetaDataX )match
-    Packet as a1 { [ ""1""] : zchar ""{,}""
-    : _x ,} ,// @lengthOf(
-char[ 007 ]// a // b
-u128@lengthOf(
-zchar)
-// a // b
-// packet A { u8 x, }
-,string_ , @leftPad ( ' ')match MetaDataX as u128 { [ ""it's"" ,7 , 65535
-, 65535]	:  chars,""" ++ [28040; 24687]%N ++ runes_of_ascii """// c
-: u , 42 : zchar , }
-    , } options // `tick` ""quote"" 'q'
-{
-    matchKey =
-""a\""b""
-    }	MetaData
-    options1 { i16
-len , char[ 7
-] // packet A { u8 x, }
-crc ,u16 asx `say ""hi""` ,i64 zchar, } // " ++ [27880; 37322]%N)).
-Eval vm_compute in ("<<<M180>>>" ++ check (runes_of_ascii "  packet repeatCount {
-@rightPad (' ' )
-char[42]	Header @calculatedFrom( ""a\\"" )
-    ,
-// packet A { u8 x, }
-// packet A { u8 x, }
-@tag( 10 ) i64 options1@calculatedFrom( ""x y"" )
-,  Packet{ i64 lengthOf@calculatedFrom( ""abc""
-)
-    // " ++ [128512]%N ++ runes_of_ascii " emoji
-    , repeat zchar[
-00 ] i64_`u8 x,`
-    , } ,
-    string tag , string
-    o `" ++ [233]%N ++ runes_of_ascii "`
+Logon//	t
+,
+[ // 50% %s
+""" ++ [128512]%N ++ runes_of_ascii """
+] : u8x
+    , 1 :calculatedFrom , """ ++ [128512]%N ++ runes_of_ascii """ :	Z9_	, 0 :
+_x } , f32 Header
+, } packet asx { @tag(00 )@rightPad
+    ( '0')
+@calculatedFrom(""a\\""// @lengthOf(
+) int64 leftPad
+    `u8 x,`
+    , repeat stringy `two words`
 /// triple
-// " ++ [128512]%N ++ runes_of_ascii " emoji
-, repeat char[  42] a1 `doc`,
-string leftPad @calculatedFrom(""a\\"" ), } 	 ")).
-Eval vm_compute in ("<<<M1626>>>" ++ check (runes_of_ascii "
-MetaData _x 
-{
-    As
-	f32a
-    `doc`// " ++ [128512]%N ++ runes_of_ascii " emoji
-  ,
-
-    }
-	packet	// @lengthOf(
-
-  x {
-	zchar[
-    255 ] 
-calculatedFrom
-
-    ,
-    string_
-    @calculatedFrom(""a	b""
-
-    )	,@calculatedFrom(""" ++ [128512]%N ++ runes_of_ascii """ )
-
-    @tag(
-4294967296)
-
-    @calculatedFrom( 
-""a	b""
-    ) char[
-
-    0
-] i64_  `" ++ [28040; 24687; 31867; 22411]%N ++ runes_of_ascii "`
-	, @leftPad
-    (  ' ' )
-repeat 
-
-    // c
-  // c
-    MetaDataX
-,	}
-
+// @lengthOf(
+,@lengthOf( len )@tag( 7 )
+i16
+int , @lengthOf( repeatCount
+    ) i8i8@lengthOf(
+roots
+) `" ++ [28040; 24687; 31867; 22411]%N ++ runes_of_ascii "` ,
+    string int @calculatedFrom(
+    ""\n"" ) `100% of %d`
+    , repeat i8i8 rootA
+`two words`, T {
+roots @lengthOf( o )  ,
+    // a // b
+    },Pad
+// trailing space 
+// a // b
+,@lengthOf(As )f32 options1 , } MetaData
+a1
+    {
+zchar[ 255 ] tag `say ""hi""`, } options { BodyLength = // 50% %s
+0123456789 }
 ")).
-Eval vm_compute in ("<<<M200>>>" ++ check (runes_of_ascii "options
-{ }	MetaData
-Foo {
-char[
-    0 ]  Logon `u8 x,` ,// packet A { u8 x, }
-zchar[ 255 ]
-    calculatedFrom `
-` ,
-    zchar[ 00 ]o
-    `u8 x,` ,char[255 ]
-Header `a\`// `tick` ""quote"" 'q'
-, // a // b
-Pad
-    Pad ,
-    } packet i8i8 {
-    u32
+Eval vm_compute in ("<<<M3985>>>" ++ check (runes_of_ascii "MetaData float {
+    u32 x,
+    T body,
+    string msg_type,
+}
+
+root packet options1 {
+    @lengthOf(chars)
+    @calculatedFrom(""\" ++ [233]%N ++ runes_of_ascii """)
+    @leftPad('\x00')
+    zchar[0] a1 @calculatedFrom(""a\\""),
+    @lengthOf(i8i8)
+    int64 crc,
+    @rightPad('0')
+    repeat char[4294967296] As,
+    @rightPad('0')
+    repeat pack {
+        match u8x as stringy {
+            ""a\""b"" : lengthOf,
+            """ ++ [233]%N ++ runes_of_ascii "t" ++ [233]%N ++ runes_of_ascii """ : a1,
+            """ ++ [128512]%N ++ runes_of_ascii """ : Pad,
+            ""\" ++ [233]%N ++ runes_of_ascii """ : metadata,
+            [255, 3] : crc,
+        },
+    },
     // " ++ [128512]%N ++ runes_of_ascii " emoji
-    float,// @lengthOf(
-As @calculatedFrom( ""// no comment"" ) , }")).
-Eval vm_compute in ("<<<M2126>>>" ++ check (runes_of_ascii "packet zchar {
+    repeat falsey,
+    @calculatedFrom(""// no comment"")
+    repeat float64 Logon,
+    repeat zchar[4294967296] Foo,
+}
+
+MetaData stringy {
+    char[65535] stringy `two words`,
+    i64_ calculatedFrom `say ""hi""`,
+    stringy float,// 50% %s
+    i8 o,
+    i8 T,
+}
+
+MetaData roots {
+    uint8x leftPad `{ , }`,// " ++ [27880; 37322]%N ++ runes_of_ascii "
+    string options1,
+    char[] tag,
+}
+
+packet uint8x {
+    @lengthOf(crc)
+    // " ++ [128512]%N ++ runes_of_ascii " emoji
+    /// triple
+    @tag(255)
+    //x
+    f32 metadata `// not a comment`,//	t
+    @rightPad(' ')
+    repeat f32a,
+    stringy {
+        f32a calculatedFrom `crlf
+        line`,
+        crc @lengthOf(i64_) `crlf
+        line`,
+        charz `doc`,
+        repeat int16 packetx,
+    },
+    matchKey o,
+    @calculatedFrom(""it's"")
+    MetaDataX @lengthOf(tag) `100% of %d`,
+}")).
+Eval vm_compute in ("<<<M3590>>>" ++ check (runes_of_ascii "packet options1 {
+    @calculatedFrom(""CRC32"")
+    uint8 crc,
+    @tag(1)
+    metadata f32a `crlf
+    line`,
+    int,
+    repeat As {
+        i64 rootA @lengthOf(string_) `a\`,
+        char[007] string_ @lengthOf(u8x),
+        char[4294967296] As @lengthOf(metadata),
+        uint64 lengthOf `say ""hi""`,
+    },
+    lengthOf @lengthOf(roots),
+    @tag(1)
+    matchKey {
+        repeat rootA _x,
+    },
+    char[65535] string_ @lengthOf(repeatCount),
+    f32a @calculatedFrom(""""),
+    match u128 as Z9_ {
+        """ ++ [28040; 24687]%N ++ runes_of_ascii """ : lengthOf,
+        ""\" ++ [233]%N ++ runes_of_ascii """ : string_,
+    },
+    @tag(4294967296)
+    u64 f32a,
+}
+
+root packet msg_type {
+}
+
+// 50% %s
+packet int {
+    char[] T @lengthOf(A),// c
+    @tag(7)
+    @lengthOf(uint8x)
+    T trueish,
+    body {
+        Foo @lengthOf(trueish),
+        T packetx `tab	here`,
+        zchar[0123456789] a1 @calculatedFrom(""" ++ [28040; 24687]%N ++ runes_of_ascii """) `say ""hi""`,
+        uint8x,
+    },
+    @tag(10)
+    repeat f64 options1,
     @rightPad()
-    uint8 a1 `line1
-        line2`,
-    @calculatedFrom(""x y"")
-    match pack as matchKey {
-        /// triple
-        """ ++ [28040; 24687]%N ++ runes_of_ascii """ : u128,
-        3 : i64_,
-        ""a\""b"" : As,
-    },
-    // " ++ [27880; 37322]%N ++ runes_of_ascii "
-    // @lengthOf(
-    u8 Packet @calculatedFrom(""// no comment""),
-}
-//")).
-Eval vm_compute in ("<<<M531>>>" ++ check (runes_of_ascii "root packet tag { }  packet MetaDataX{char[007	float64
-// c
-/// triple
-asx  @calculatedFrom( ""a\""b""
-) `say ""hi""`// " ++ [27880; 37322]%N ++ runes_of_ascii "
-,  @tag(4294967296 )
-    char[1//x
-] packetx @calculatedFrom(""a\""b""
-    ) ,
-// " ++ [128512]%N ++ runes_of_ascii " emoji
-// a // b
-@calculatedFrom(""" ++ [233]%N ++ runes_of_ascii "t" ++ [233]%N ++ runes_of_ascii """  ) repeat pack // " ++ [27880; 37322]%N ++ runes_of_ascii "
-,
-    } // c")).
-Eval vm_compute in ("<<<M549>>>" ++ check (runes_of_ascii "root packet tag { }  packet MetaDataX{char[007	]
-// c
-/// triple
-asx  @calculatedFrom( ""a\""b""
-) ) `say ""hi""`// " ++ [27880; 37322]%N ++ runes_of_ascii "
-,  @tag(4294967296 )
-    char[1//x
-] packetx @calculatedFrom(""a\""b""
-    ) ,
-// " ++ [128512]%N ++ runes_of_ascii " emoji
-// a // b
-@calculatedFrom(""" ++ [233]%N ++ runes_of_ascii "t" ++ [233]%N ++ runes_of_ascii """  ) repeat pack // " ++ [27880; 37322]%N ++ runes_of_ascii "
-,
-    } // c")).
-Eval vm_compute in ("<<<M666>>>" ++ check (runes_of_ascii "root packet tag { }  packet MetaDataX{char[007	]
-// c
-/// triple
-asx  @calculatedFrom\( ""a\""b""
-) `say ""hi""`// " ++ [27880; 37322]%N ++ runes_of_ascii "
-,  @tag(4294967296 )
-    char[1//x
-] packetx @calculatedFrom(""a\""b""
-    ) ,
-// " ++ [128512]%N ++ runes_of_ascii " emoji
-// a // b
-@calculatedFrom(""" ++ [233]%N ++ runes_of_ascii "t" ++ [233]%N ++ runes_of_ascii """  ) repeat pack // " ++ [27880; 37322]%N ++ runes_of_ascii "
-,
-    } // c")).
-Eval vm_compute in ("<<<M620>>>" ++ check (runes_of_ascii "root packet tag { }  packet MetaDataX{char[007	]
-// c
-/// triple
-asx  @calculatedFrom( ""a\""b""
-) `say ""hi""`// " ++ [27880; 37322]%N ++ runes_of_ascii "
-,  @tag(4294967296 )
-    char[1//x
-] packetx @calculatedFrom(""a\""b""
-    ) ,
-// " ++ [128512]%N ++ runes_of_ascii " emoji
-// a // b
-""" ++ [233]%N ++ runes_of_ascii "t" ++ [233]%N ++ runes_of_ascii """@calculatedFrom(  ) repeat pack // " ++ [27880; 37322]%N ++ runes_of_ascii "
-,
-    } // c")).
-Eval vm_compute in ("<<<M482>>>" ++ check (runes_of_ascii "( packet tag { }  packet MetaDataX{char[007	]
-// c
-/// triple
-asx  @calculatedFrom( ""a\""b""
-) `say ""hi""`// " ++ [27880; 37322]%N ++ runes_of_ascii "
-,  @tag(4294967296 )
-    char[1//x
-] packetx @calculatedFrom(""a\""b""
-    ) ,
-// " ++ [128512]%N ++ runes_of_ascii " emoji
-// a // b
-@calculatedFrom(""" ++ [233]%N ++ runes_of_ascii "t" ++ [233]%N ++ runes_of_ascii """  ) repeat pack // " ++ [27880; 37322]%N ++ runes_of_ascii "
-,
-    } // c")).
-Eval vm_compute in ("<<<M621>>>" ++ check (runes_of_ascii "root packet tag { }  packet MetaDataX{char[007	]
-// c
-/// triple
-asx  @calculatedFrom( ""a\""b""
-) `say ""hi""`// " ++ [27880; 37322]%N ++ runes_of_ascii "
-,  @tag(4294967296 )
-    char[1//x
-] packetx @calculatedFrom(""a\""b""
-    ) ,
-// " ++ [128512]%N ++ runes_of_ascii " emoji
-// a // b
-packet""" ++ [233]%N ++ runes_of_ascii "t" ++ [233]%N ++ runes_of_ascii """  ) repeat pack // " ++ [27880; 37322]%N ++ runes_of_ascii "
-,
-    } // c")).
-Eval vm_compute in ("<<<M3>>>" ++ check (runes_of_ascii "
-options	{
-} MetaData pack {string T ,
-    msg_type
-    // a // b
-    stringy `" ++ [233]%N ++ runes_of_ascii "`
-, }
-    // " ++ [128512]%N ++ runes_of_ascii " emoji
-    packet a1 {
-// " ++ [128512]%N ++ runes_of_ascii " emoji
-// packet A { u8 x, }
-repeat i32 x , i16 msg_type @calculatedFrom( ""it's""
-    )`two words` , } // " ++ [27880; 37322]%N)).
-Eval vm_compute in ("<<<M1985>>>" ++ check (runes_of_ascii "packet Logon {
-    string user,
+    trueish @lengthOf(A) ``,
+    repeat MetaDataX `line1
+    line2`,
+    string repeatCount @calculatedFrom(""" ++ [128512]%N ++ runes_of_ascii """),
+    @calculatedFrom(""" ++ [233]%N ++ runes_of_ascii "t" ++ [233]%N ++ runes_of_ascii """)
+    uint8 a1 @lengthOf(leftPad),
+    @calculatedFrom(""abc"")
+    Z9_ @calculatedFrom(""abc""),
+}")).
+Eval vm_compute in ("<<<M1409>>>" ++ check (runes_of_ascii "options {
+	StringPrefixLenType = u16;
+	ArrayPrefixLenType = u16;
 }
 
-root packet Frame {
-    u8 K,
-    match K as Body {
-        1 : Logon,
-        2 : Logout,
-    },
-    Tail,
+packet SampleBinary {
+	uint16 MsgType `" ++ [28040; 24687; 31867; 22411]%N ++ runes_of_ascii "`,
+	u16 BodyLenght @lengthOf(Body) `" ++ [28040; 24687; 20307; 38271; 24230]%N ++ runes_of_ascii "`,
+	match MsgType as Body {
+		1 : Logon,
+		2 : Logout,
+		3 : Heartbeat,
+		4 : RiskControlRequest,
+		5 : RiskControlResponse,
+	},
+	@calculatedFrom(""CRC32"")
+	u32 Ckecksum `" ++ [26657; 39564; 21644]%N ++ runes_of_ascii "`,
+}
+
+packet Logon {
+	@leftPad('0')
+	char[10] UserName `" ++ [29992; 25143; 21517]%N ++ runes_of_ascii "`,
+	string Password `" ++ [23494; 30721]%N ++ runes_of_ascii "`,
+	uint64 ClientId `" ++ [23458; 25143; 31471]%N ++ runes_of_ascii "ID`,
+	u16 HeartbeatInterval `" ++ [24515; 36339; 38388; 38548]%N ++ runes_of_ascii "`,
 }
 
 packet Logout {
-    u16 reason,
+	@rightPad('0')
+	char[10] UserName `" ++ [29992; 25143; 21517]%N ++ runes_of_ascii "`,
+	uint64 ClientId `" ++ [23458; 25143; 31471]%N ++ runes_of_ascii "ID`,
 }
 
-packet Tail {
-    u32 crc,
+packet Heartbeat {
+}
+
+packet RiskControlRequest {
+	string UniqueOrderId `" ++ [21807; 19968; 35746; 21333; 21495]%N ++ runes_of_ascii "`,
+	char[16] ClOrdID `" ++ [23458; 25143; 35746; 21333; 21495]%N ++ runes_of_ascii "`,
+	char[3] MarketID `" ++ [24066; 22330]%N ++ runes_of_ascii "id`,
+	char[12] SecurityID `" ++ [35777; 21048; 20195; 30721]%N ++ runes_of_ascii "`,
+	char Side `" ++ [20080; 21334; 26041; 21521]%N ++ runes_of_ascii "`,
+	char OrderType `" ++ [35746; 21333; 31867; 22411]%N ++ runes_of_ascii "`,
+	u64 Price `" ++ [20215; 26684]%N ++ runes_of_ascii "`,
+	u32 Qty `" ++ [25968; 37327]%N ++ runes_of_ascii "`,
+	repeat string ExtraInfo `" ++ [38468; 21152; 20449; 24687]%N ++ runes_of_ascii "`,
+	repeat SubOrder {
+		char[16] ClOrdID `" ++ [23376; 35746; 21333; 21495]%N ++ runes_of_ascii "`,
+		u64 Price `" ++ [23376; 35746; 21333; 20215; 26684]%N ++ runes_of_ascii "`,
+		u32 Qty `" ++ [23376; 35746; 21333; 25968; 37327]%N ++ runes_of_ascii "`,
+	},
+}
+
+packet RiskControlResponse {
+	string UniqueOrderId `" ++ [21807; 19968; 35746; 21333; 21495]%N ++ runes_of_ascii "`,
+	i32 Status `" ++ [29366; 24577]%N ++ runes_of_ascii "`,
+	string Msg `" ++ [32467; 26524; 20449; 24687]%N ++ runes_of_ascii "`,
+	repeat Detail,
+}
+
+packet Detail {
+	string RuleName `" ++ [35268; 21017; 21517; 31216]%N ++ runes_of_ascii "`,
+	u16 Code `" ++ [21407; 22240; 20195; 30721]%N ++ runes_of_ascii "`,
 }")).
-Eval vm_compute in ("<<<M2105>>>" ++ check (runes_of_ascii "packet A {
-    Inner {
-        match k as n {
-            [
-                1, 22, 007, 4, 5,
-                66, 7, 8, 9, 10,
-                11, 12
-            ] : B,
-        },
-    },
-}")).
-Eval vm_compute in ("<<<M386>>>" ++ check (runes_of_ascii "packet packet
-    // `tick` ""quote"" 'q'
-    crc
-// packet A { u8 x, }
-//	t
-{
-u32 a1 ,
-    // trailing space 
-    roots
-charz //
-`two words`,	}
-    MetaData int {
-} /// triple")).
-Eval vm_compute in ("<<<M435>>>" ++ check (runes_of_ascii "packet
-    // `tick` ""quote"" 'q'
-    crc
-// packet A { u8 x, }
-//	t
-{
-u32 a1 ,
-    // trailing space 
-    roots
-charz //
-`two words`,	} }
-    MetaData int {
-} /// triple")).
-Eval vm_compute in ("<<<M396>>>" ++ check (runes_of_ascii "packet
-    // `tick` ""quote"" 'q'
-    crc
-// packet A { u8 x, }
-//	t
-u32
-{ a1 ,
-    // trailing space 
-    roots
-charz //
-`two words`,	}
-    MetaData int {
-} /// triple")).
-Eval vm_compute in ("<<<M429>>>" ++ check (runes_of_ascii "packet
-    // `tick` ""quote"" 'q'
-    crc
-// packet A { u8 x, }
-//	t
-{
-u32 a1 ,
-    // trailing space 
-    roots
-charz //
-`two words`	}
-    MetaData int {
-} /// triple")).
-Eval vm_compute in ("<<<M414>>>" ++ check (runes_of_ascii "packet
-    // `tick` ""quote"" 'q'
-    crc
-// packet A { u8 x, }
-//	t
-{
-u32 a1 ,
-    // trailing space 
-    
-charz //
-`two words`,	}
-    MetaData int {
-} /// triple")).
-Eval vm_compute in ("<<<M2117>>>" ++ check (runes_of_ascii "root packet Foo {
-    int32 tag `doc`,
-    char[0] u8x `u8 x,`,
-    charz charz,
+Eval vm_compute in ("<<<M3673>>>" ++ check (runes_of_ascii "root packet x {
+}
+
+packet trueish {
     @rightPad(' ')
-    @tag(3)
-    @rightPad('0')
-    repeat int16 float,
-}")).
-Eval vm_compute in ("<<<M130>>>" ++ check (runes_of_ascii "  packet x_y_z	{ @tag( // c
-00
-//x
-// packet A { u8 x, }
-)
-@tag(// " ++ [27880; 37322]%N ++ runes_of_ascii "
-7 ) @leftPad ( ) int16 _x @lengthOf( u ) `it's` // `tick` ""quote"" 'q'
-, }
-")).
-Eval vm_compute in ("<<<M1493>>>" ++ check (runes_of_ascii "
+    repeat u16 As `tab	here`,
+}
 
-  packet A  {	u8
-
-    a
-    ,} 
-packet
-    B
-{ 
-u16 b,}
-
-    root packet 
-P 
-{ u8 
-K ,
-match K as M
-{ 
-1  :
-A
-	,1
-:B , }
-    ,
-	}
-")).
-Eval vm_compute in ("<<<M1950>>>" ++ check (runes_of_ascii "packet A {
-    match k as n {
-        [
-            1, ""bb"", 007, ""d"", 5,
-            ""f""
-        ] : B,
-        2 : C,
+root packet Packet {
+    falsey @calculatedFrom(""" ++ [28040; 24687]%N ++ runes_of_ascii """),
+    @lengthOf(u128)
+    repeat zchar[42] calculatedFrom `it's`,
+    u64 options1 @lengthOf(repeatCount),
+    @rightPad(' ')
+    @calculatedFrom(""x y"")
+    @rightPad('\x00')
+    msg_type {
+        string A @calculatedFrom(""`tick`""),
+        i16 Pad @calculatedFrom(""" ++ [233]%N ++ runes_of_ascii "t" ++ [233]%N ++ runes_of_ascii """) `line1
+        line2`,
+        float64 roots @lengthOf(body),
     },
-}")).
-Eval vm_compute in ("<<<M1230>>>" ++ check (runes_of_ascii "root packet matchKey {
-// c
-zchar[ 3 ] pack @calculatedFrom( ""a	b"" ) `doc` , } options { } MetaData A { int8 msg_type , }")).
-Eval vm_compute in ("<<<M1262>>>" ++ check (runes_of_ascii "root packet matchKey { zchar[ 3 ] pack @calculatedFrom( ""a	b"" ) `doc` , } options { } MetaData A {
-// c
-int8 msg_type , }")).
-Eval vm_compute in ("<<<M1439>>>" ++ check (runes_of_ascii "// top
-root // c0a
-  // c0b
-packet P // c2a
-  // c2b
-{ // c3
-repeat // c4
-char cs , u8 x // c9a
-  // c9b
-, // c10
-} ")).
-Eval vm_compute in ("<<<M920>>>" ++ check (runes_of_ascii "packet A {
-    u16 len @lengthOf(body) `a
-b`,
-    u32 crc @calculatedFrom(""CRC32"") `a
-b`,
-    string body,
-}")).
-Eval vm_compute in ("<<<M1890>>>" ++ check (runes_of_ascii "
-MetaData
-    _x {
+    @tag(007)
+    f32 BodyLength @lengthOf(float),
+    Pad Foo,
+    char[] chars `it's`,
+    @calculatedFrom(""" ++ [233]%N ++ runes_of_ascii "t" ++ [233]%N ++ runes_of_ascii """)
+    Pad {
+        repeat BodyLength uint8x,
+        match Pad as Foo {
+            ""packet"" : i64_,
+            [4294967296, ""{,}""] : BodyLength,
+            10 : repeatCount,
+            [0123456789, 3, 42, ""\n"", ""x y""] : Logon,
+            [10, ""`tick`"", 0123456789] : tag,
+            42 : trueish,
+        },
+        repeat zchar[4294967296] Foo `it's`,
+    },
+}
 
-    } 
+packet float {
+    @tag(1)
+    u64 options1 @calculatedFrom(""a\""b""),
+}")).
+Eval vm_compute in ("<<<M4017>>>" ++ check (runes_of_ascii "  packet
+
+    packetx { float64
+	string_
+	,o
+{
+    Pad
+
+options1
+	`" ++ [233]%N ++ runes_of_ascii "` ,
+    roots
+{
+	float32 Z9_
+`a\`
+,uint32
+	Logon 
+,match
+asx
+	as
+
+rootA { 
+""`tick`""	:
+
+    As
+// trailing space 
+	// c
+  ,
+    00
+    :
+int
+
+    , 	 /// triple
+} ,
+	repeat char[]
+
+// 50% %s
+  	// a // b
+	Logon,} ,f32  // `tick` ""quote"" 'q'
+  u128
+    `crlf
+line`
+
+,
+}	,} packet  float{
+    falsey ,
+    crc
+
+@calculatedFrom(
+""abc""
+)  , @calculatedFrom( ""1""
+)
+
+    repeat  //	t
+    T
+    ,@rightPad ('\x00' )repeat
+	Header
+`tab	here` ,
+
+    repeat  //x
+	char[]
+    uint8x ,
+
+pack@calculatedFrom(  """ ++ [233]%N ++ runes_of_ascii "t" ++ [233]%N ++ runes_of_ascii """  ) ,
+
+@lengthOf( i8i8 
+)
+u16
+
+    a1 
+``
+,
+int64 roots  
+      // 50% %s
+      // 50% %s
+@calculatedFrom(
+	""x y""
+
+)	, 
+rootA
+    ,BodyLength  
+  // a // b
+	@lengthOf(
+zchar
+	    /// triple
+)
+
+    , 	 // 50% %s
+    }MetaData
+
+calculatedFrom {  stringy
+    crc //	t
+
+,
+    } MetaData
+Foo {	Packet
+	A 
+, int8
+	Packet
+
+    ,
+	As	calculatedFrom
+,
+	calculatedFrom
+calculatedFrom
+	``	,  } ")).
+Eval vm_compute in ("<<<M1330>>>" ++ check (runes_of_ascii "MetaData uint8x	{ f32a pack , uint64
+    _x`line1
+line2` ,
+} packet
+    options1{ @rightPad
+    ( )
+//x
+// `tick` ""quote"" 'q'
+zchar[42 ]
+    Z9_  ,int64 u
+    `tab	here`,@tag( 0
+)  zchar
+    @lengthOf( body ) ,@calculatedFrom(
+    ""packet""
+    //	t
+    )	repeat Logon msg_type  `crlf
+line` ,@tag(
+0123456789) zchar[0 ] u`line1
+line2`, i64_
+    { u64 u128 //
+@calculatedFrom(  ""it's"" ) ,},@calculatedFrom( ""abc"")
+@tag(
+1
+// " ++ [27880; 37322]%N ++ runes_of_ascii "
+/// triple
+) @rightPad ( '0') repeat Foo lengthOf, }MetaData BodyLength { string repeatCount ,zchar[ 00] packetx
+`two words`,char[]// " ++ [27880; 37322]%N ++ runes_of_ascii "
+MetaDataX`doc` ,  }  packet packetx {
+@tag( 10)@lengthOf( charz ) @lengthOf(
+zchar ) repeat matchKey // a // b
+, @lengthOf( MetaDataX )
+repeat leftPad
+roots ,	@calculatedFrom(// c
+""a\""b""
+)match
+matchKey
+as/// triple
+chars { 007
+    : Foo, // a // b
+""" ++ [128512]%N ++ runes_of_ascii """ : zchar , 007:	crc // " ++ [27880; 37322]%N ++ runes_of_ascii "
+,} ,
+Z9_  @lengthOf( charz) , @leftPad (	'\x00' )repeat zchar[ 65535 ]	charz , }")).
+Eval vm_compute in ("<<<M291>>>" ++ check (runes_of_ascii "packet options1 { }packet o
+    {	o Header `` , @calculatedFrom( ""\n"" ) int32 MetaDataX ,
+// @lengthOf(
+//	t
+rootA
+{match tag as	Header{	""x y"" :
+string_ ,
+00
+: roots
+4294967296: trueish // @lengthOf(
+""a\""b"" : u
+, ""a\""b"" :
+packetx ""\n"" : float
+//	t
+/// triple
+,
+} ,
+} ,	match//
+x_y_z
+as
+float { ""a	b"" :float , // trailing space 
+[ 7 // " ++ [128512]%N ++ runes_of_ascii " emoji
+,
+0123456789
+, 4294967296
+,  ""x y"" ,7, ""a\""b"" , 7 ] : Header , ""x y"":Pad ,""`tick`"":  len
+} , @calculatedFrom( ""packet""
+    )
+repeat string As , Foo { int16 trueish	, repeat
+int16
+    metadata `{ , }` , match lengthOf
+//
+// `tick` ""quote"" 'q'
+as Pad { ""\" ++ [233]%N ++ runes_of_ascii """ :metadata// a // b
+, } , Foo
+    @calculatedFrom( ""\n"" )// `tick` ""quote"" 'q'
+`crlf
+line` , // 50% %s
+},u@lengthOf(repeatCount
+) `doc`
+    , T @lengthOf( calculatedFrom ) ,} MetaData trueish{
+    }
+// " ++ [128512]%N ++ runes_of_ascii " emoji
+// packet A { u8 x, }
+options{
+    trueish	= uint8; }
+MetaData
+Pad {}
+")).
+Eval vm_compute in ("<<<M4279>>>" ++ check (runes_of_ascii "  packet float  {
+	}	packet
+	o {
+zchar[
+3
+
+] x `doc`
+    , repeat
+	string_ 
+{ 
+char[]
+	stringy `" ++ [233]%N ++ runes_of_ascii "` 
+,	}  ,
+repeat uint32 a1
+    ``
+
+, 	 //
+    int64 // c
+
+  Pad@calculatedFrom(	""1"")
+
+    ,
+    @lengthOf(
+crc ) repeat	/// triple
+  u16
+	packetx ,
+	msg_type
+
+@lengthOf(
+	crc	)
+,@tag(3
+)
+    i16 
+u128 ,
+	zchar[
+    65535
+
+]
+	Logon
+	`crlf
+line` , @lengthOf(
+    repeatCount) @calculatedFrom(	""a\""b""
+    )
+
+crc tag  ,}  root
+packet
+i8i8	{ repeat
+Packet
+	{msg_type
+@calculatedFrom(	""a\""b""
+    ) ,
+/// triple
+	// 50% %s
+	}
+, } // c
+packet
+    i8i8{ //	t
+  i32
+    a1// packet A { u8 x, }
+      @calculatedFrom(""\n"" )	`// not a comment` ,  } root 
+packet	u128
+{  @leftPad('\x00'
+	)x_y_z
+
+@lengthOf(  lengthOf
+
+    ) , repeat u32  calculatedFrom  // packet A { u8 x, }
+    , 
+u8	_x
+@calculatedFrom(
+	""" ++ [128512]%N ++ runes_of_ascii """ )
+	`u8 x,`
+,	int8	Pad ,  crc
+	, }
+")).
+Eval vm_compute in ("<<<M566>>>" ++ check (runes_of_ascii "root
+    packet crc {}
+root	packet //x
+uint8x { match
+// `tick` ""quote"" 'q'
+// `tick` ""quote"" 'q'
+u8x as
+    matchKey { /// triple
+0 : // " ++ [128512]%N ++ runes_of_ascii " emoji
+options1 3
+:
+    /// triple
+    charz ,
+    [ ""\n"" , """"
+    , ""abc"",
+""a\""b"" , ""abc""
+,	42
+    ,""" ++ [128512]%N ++ runes_of_ascii """
+] : lengthOf },
+}packet o
+{ @calculatedFrom(
+""a\\"" //	t
+)	match o as asx {
+65535
+    : zchar, }
+,
+    //
+    Header @calculatedFrom(  """ ++ [128512]%N ++ runes_of_ascii """) ,
+    msg_type
+charz , repeat
+crc { repeat x_y_z `doc` , char[0123456789 ] Foo  ,	repeat i16 x`` , // packet A { u8 x, }
+zchar[ 7 ]
+o @calculatedFrom( ""abc"" )
+, } ,@calculatedFrom(
+    // c
+    ""// no comment"" )
+    repeat
+u32 Pad // " ++ [128512]%N ++ runes_of_ascii " emoji
+,
+repeat int64 u128 `100% of %d` ,
+    repeat uint8x {uint64  leftPad
+    `line1
+line2` , i64_ // " ++ [27880; 37322]%N ++ runes_of_ascii "
+`doc`
+, }
+    // @lengthOf(
+    ,
+} root
+packet metadata {}
+")).
+Eval vm_compute in ("<<<M483>>>" ++ check (runes_of_ascii "root //
+packet // " ++ [27880; 37322]%N ++ runes_of_ascii "
+u {leftPad  { lengthOf T	`say ""hi""`
+    , rootA
+u128
+`say ""hi""` //x
+, } ,  } root packet// packet A { u8 x, }
+f32a {
+    //
+    @tag( 7 ) match
+    uint8x
+    // c
+    as i64_{ [
+7 ,""it's"" , ""a\\""
+, 65535] :int , 255 : _x ,
+""x y""
+    :	BodyLength ,},
+    repeat u32
+    i64_ ,
+uint8x{
+i8 leftPad`a\` , } , @leftPad( ) @lengthOf( matchKey ) @rightPad (
+' ' ) zchar[ 42
+    ] Header // trailing space 
+@lengthOf(_x ) , i64 repeatCount ,
+    }//x
+packet roots
+{a1 `tab	here` ,} options
+{Z9_ =
+// @lengthOf(
+// " ++ [27880; 37322]%N ++ runes_of_ascii "
+char[]
+    //x
+    roots = int32 matchKey =
+    ""// no comment""
+; uint8x=""packet""
+; }
+    // 50% %s
+    MetaData _x {  o lengthOf ,  i8
+    metadata ,
+char[ 0123456789] o
+,
+    i32
+    // @lengthOf(
+    _x, zchar[10 ] MetaDataX,	}")).
+Eval vm_compute in ("<<<M641>>>" ++ check (runes_of_ascii "options { rootA  =
+    float64 // packet A { u8 x, }
+;asx
+    // trailing space 
+    = ""x y"" ;/// triple
+zchar
+=
+""it's"" u = '0'  ;}packet
+i8i8{ @calculatedFrom(  ""// no comment""  ) o charz, f64 asx , @calculatedFrom( ""`tick`"" )
+    u32 msg_type
+    `doc`	,@calculatedFrom( ""it's""
+)
+    // 50% %s
+    string_ { uint32 A
+, // a // b
+x_y_z f32a , char[
+    007 ] packetx
+    // trailing space 
+    @lengthOf(
+int ) , Pad float `doc`
+,} ,} packet lengthOf {float { repeat
+    x ,
+    match
+body as roots // " ++ [128512]%N ++ runes_of_ascii " emoji
+{ [ 42] : u128 , //	t
+[ 4294967296 , ""{,}"" , ""CRC32"" ,
+    """ ++ [28040; 24687]%N ++ runes_of_ascii """
+, ""// no comment"" , """ ++ [233]%N ++ runes_of_ascii "t" ++ [233]%N ++ runes_of_ascii """
+    ,	4294967296
+    ,1]
+: Z9_ ,  }
+    , u32 f32a	@lengthOf( x  )	, leftPad  @calculatedFrom( ""// no comment""	) `tab	here` ,
+}	, }
+
+")).
+Eval vm_compute in ("<<<M244>>>" ++ check (runes_of_ascii "packet calculatedFrom { @leftPad	( /// triple
+'\x00') match asx as
+x  { 0 :T
+,}, roots Pad
+, @lengthOf( o) packetx { BodyLength { f64 charz ,
+// c
+//x
+Packet  , repeat A {
+Header , } ,repeat
+Pad
+f32a
+    `a\`  , } ,
+    repeat options1 , } ,
+    @leftPad ( ' ' ) repeat packetx { //
+int16 Logon  , } , float32
+    rootA	@calculatedFrom( ""a\\""), char[] u	,
+tag leftPad `doc`
+,@calculatedFrom(	""" ++ [28040; 24687]%N ++ runes_of_ascii """ )
+match roots as trueish
+{[
+    255 ,
+""a\""b""
+    , ""1""
+, ""\n""
+,
+42 , 42  , 65535 ,
+10]
+: u8x,[ // trailing space 
+""""
+, ""CRC32"" ,
+3 ,
+    255, 0123456789 ,
+""packet"", ""a	b""
+, """"
+]
+:leftPad ,
+0123456789  : crc
+    , ""a\""b"" : Header , 1 :string_ 65535	: a1 } , repeat// `tick` ""quote"" 'q'
+crc ,
+    }
+")).
+Eval vm_compute in ("<<<M3462>>>" ++ check (runes_of_ascii "
+options 
+{
+
+LittleEndian
+	=
+false ; StringPrefixLenType
+=	u32
+
+    ; ArrayPrefixLenType	= u32	;
+
+FixedStringPadChar=
+' ';  }
 packet
 
-calculatedFrom {
-}MetaData
-_x {
+Order{  InX16 {
 
-    i32 
-body
-    , uint8 x , }
+i64
+    Tail
+, 
+char[	4 ]	price ,  repeat
 
-")).
-Eval vm_compute in ("<<<M1641>>>" ++ check (runes_of_ascii "packet
+char[  4 
+]	Qty  ,
+	}
+, InSym89 {
 
-A	{ match  k 
-as
-n 
-{ [ ""a""  ,
-""bb"" ,  ""c c""
+    int8 
+x ,char[8 
+] clOrdID  ,
+    i32  tag7	, 
+char[7]venue , int64 Ref ,
+}
+
+    ,
+zchar[
+7	] Flags , } packet
+    Logon {  zchar[	3 ]  sym ,
+    }	packet
+    Leg  {InCount34
+    {char[10 
+]OrderId,
+}, 
+}
+packet 
+Party
+
+{ } root
+
+packet 
+Ack 
+{  repeat Leg 
 ,
-	""d""	,
-    ""e"" ]:
 
-    B  ,	2
+    char[ 8 ]  Flags ,
+u8 seqNo , 
+u16	Qty
+    @lengthOf(
+Body 
+)  ,
+    match
+	seqNo
+	as
 
-:  C } 
-,  }
+Body
 
+{
+	21 :Order , 
+56	:  Logon,
+
+138
+	: 
+Leg ,73
+
+:
+	Party , }
+	,
+
+}
 ")).
-Eval vm_compute in ("<<<M1901>>>" ++ check (runes_of_ascii "packet o {
+Eval vm_compute in ("<<<M3980>>>" ++ check (runes_of_ascii "packet chars {
+    char options1,
+}
+
+// @lengthOf(
+packet tag {
+    match msg_type as leftPad {
+        42 : options1,
+        """" : rootA,
+        7 : asx,
+        [
+            10, ""a\\"", ""a\""b"", 007, 00,
+            ""a	b""
+        ] : Logon,
+        007 : calculatedFrom,
+        [
+            255, 10, 0, 1, """ ++ [233]%N ++ runes_of_ascii "t" ++ [233]%N ++ runes_of_ascii """,
+            """ ++ [233]%N ++ runes_of_ascii "t" ++ [233]%N ++ runes_of_ascii """
+        ] : repeatCount,
+    },
+    string matchKey,
+    @calculatedFrom("""")
+    repeat int64 repeatCount `line1
+    line2`,
+}
+
+MetaData trueish {
+    char[] Foo,
+    float matchKey,// " ++ [128512]%N ++ runes_of_ascii " emoji
+    float32 Header,
+    BodyLength matchKey,
+    // `tick` ""quote"" 'q'
+    // trailing space 
+    i64 T,
+    Pad int `a\`,
+}")).
+Eval vm_compute in ("<<<M1144>>>" ++ check (runes_of_ascii "options {BodyLength
+    =  u32 ; }MetaData u // " ++ [128512]%N ++ runes_of_ascii " emoji
+{ string_
+chars ,//x
+} packet Foo{  @tag(255
+    )
+len a1// trailing space 
+`// not a comment`, @tag( 42  )
+    uint16
+    lengthOf ,zchar falsey , @rightPad
+( ' '	)
+    repeat float64 _x	, @lengthOf( _x ) repeat i8i8  rootA `doc` , match rootA as Packet {65535 : len [ 65535
+,
+    // trailing space 
+    ""abc"" ,""it's""
     // c
-    repeat Logon uint8x,
+    ,""a\""b"" , // c
+65535 ,
+    65535] : i8i8 ""x y""
+    // c
+    :
+i64_
+,
+4294967296 : calculatedFrom ,00 :  f32a , ""CRC32""  :
+charz ,}
+    , } packet
+    string_ { }
+packet calculatedFrom {@tag( 42) @rightPad ( '\x00'
+)char[ 10 ] options1 , }
+")).
+Eval vm_compute in ("<<<M721>>>" ++ check (runes_of_ascii "packet calculatedFrom
+    {@lengthOf(pack )
+    zchar @lengthOf( Z9_) `a\` , // 50% %s
+@calculatedFrom( ""it's"") leftPad ,trueish , // " ++ [128512]%N ++ runes_of_ascii " emoji
+@calculatedFrom(
+    ""{,}""
+)
+float32 string_ @calculatedFrom( ""1"" ) `tab	here` ,} packet
+u8x{
+match Header as
+roots { [
+""" ++ [28040; 24687]%N ++ runes_of_ascii """ ,""\" ++ [233]%N ++ runes_of_ascii """  , 65535 ,0, 10,//	t
+65535 , ""\n""
+    ]:
+    metadata [
+    /// triple
+    ""// no comment""
+// " ++ [27880; 37322]%N ++ runes_of_ascii "
+//	t
+,
+""{,}""
+, 0
+    ,
+    ""\n"", 3	]//	t
+: i8i8 ,
+    }
+// a // b
+//	t
+, match trueish as stringy { ""CRC32""//
+:repeatCount ,
+// a // b
+//	t
+[""1"", ""a\\"" ,
+""a\\""
+,
+007, 10	,""1""
+,007
+]: repeatCount ""\" ++ [233]%N ++ runes_of_ascii """
+    :
+    msg_type , }
+,}
+")).
+Eval vm_compute in ("<<<M305>>>" ++ check (runes_of_ascii "
+root packet repeatCount { repeat
+    crc trueish , u8 matchKey `a\` ,
+repeat char[ 4294967296 ] len,  string x, } packet
+    // c
+    f32a  { uint64 metadata
+,  repeat matchKey {
+// c
+//	t
+char[]
+msg_type @calculatedFrom( ""\n"" ) , string
+chars @calculatedFrom( ""1"" ) `two words`// c
+, } ,
+stringy ,
+repeat _x,string a1`{ , }` ,
+char[] repeatCount @lengthOf( calculatedFrom )	, metadata
+    @calculatedFrom(""abc"")
+`" ++ [28040; 24687; 31867; 22411]%N ++ runes_of_ascii "`, }
+options { matchKey = true }packet// trailing space 
+stringy {	uint64
+msg_type `" ++ [28040; 24687; 31867; 22411]%N ++ runes_of_ascii "`
+,zchar[  4294967296 ]msg_type
+@calculatedFrom( ""abc"")
+, } /// triple")).
+Eval vm_compute in ("<<<M1123>>>" ++ check (runes_of_ascii "MetaData o{ char[] a1 `// not a comment` , metadata rootA `// not a comment` ,	int8
+    matchKey
+// @lengthOf(
+// c
+`{ , }`
+    , i64
+    Packet , i16  pack
+, len trueish ,}// @lengthOf(
+packet  Packet{// 50% %s
+@calculatedFrom(  ""// no comment"" ) char[0
+]  zchar @calculatedFrom(""x y"" )	`100% of %d` ,	@lengthOf( o )@rightPad(
+    '0') @calculatedFrom( ""\" ++ [233]%N ++ runes_of_ascii """  )match lengthOf as
+Packet { // trailing space 
+[ 00
+    ,
+    4294967296 //	t
+, ""a\\"" , ""{,}"" ] :	_x , } ,
+@leftPad (
+    '0' ) @lengthOf(
+matchKey ) x	repeatCount  , string_  `line1
+line2` ,} // " ++ [27880; 37322]%N)).
+Eval vm_compute in ("<<<M377>>>" ++ check (runes_of_ascii "options{}//
+packet  body {
+Logon packetx `
+` , u32  body @calculatedFrom(""`tick`""
+//x
+//x
+), match
+chars as
+    x_y_z
+{[ ""`tick`"" , 255 ,
+007
+    ,""" ++ [128512]%N ++ runes_of_ascii """ , """ ++ [28040; 24687]%N ++ runes_of_ascii """, 1 ,
+42 ] //	t
+:	trueish ""it's""	: // packet A { u8 x, }
+u , } , @rightPad ( '\x00' ) @rightPad ( )
+@lengthOf(
+    float ) repeat // c
+x_y_z len
+,	repeat
+asx `{ , }`
+    ,
+    zchar[4294967296 ]leftPad
+@calculatedFrom(""x y"" )`100% of %d`
+    ,
+@calculatedFrom( ""a\""b"" ) zchar[ 00 ]matchKey
+@calculatedFrom( ""`tick`""
+    ) , zchar[ 10]
+    x @lengthOf( A ) ,} packet body{ }")).
+Eval vm_compute in ("<<<M192>>>" ++ check (runes_of_ascii "/// triple
+root packet
+    lengthOf
+    { @lengthOf(
+Header) @tag(
+255 )lengthOf//x
+MetaDataX ,
+    @tag(// trailing space 
+0
+    ) match int // 50% %s
+as // 50% %s
+repeatCount {""a\""b"" : rootA ,007 :MetaDataX
+    ,  42
+    /// triple
+    : uint8x , [ ""it's""// " ++ [128512]%N ++ runes_of_ascii " emoji
+, //
+3	] // a // b
+:
+a1 3 :_x, },// 50% %s
+@calculatedFrom( ""\n"" ) zchar[//	t
+42] zchar @calculatedFrom(
+// " ++ [128512]%N ++ runes_of_ascii " emoji
+// trailing space 
+""" ++ [128512]%N ++ runes_of_ascii """ )// " ++ [128512]%N ++ runes_of_ascii " emoji
+, @calculatedFrom(// trailing space 
+""x y"") repeat float32
+charz `" ++ [233]%N ++ runes_of_ascii "` ,
+// c
+// c
+}
+//	t
+")).
+Eval vm_compute in ("<<<M1128>>>" ++ check (runes_of_ascii "packet
+Pad
+{ repeat  uint32
+matchKey , match
+zchar	as
+body
+{""CRC32""
+:x
+""abc""
+    :u8x
+// 50% %s
+// trailing space 
+, }
+, @calculatedFrom( ""1"" ) @tag(
+    4294967296
+)
+// packet A { u8 x, }
+// " ++ [128512]%N ++ runes_of_ascii " emoji
+repeat int32 pack ,
+    // 50% %s
+    }root packet asx
+{ // `tick` ""quote"" 'q'
+leftPad { char[
+10 ] options1 , char[4294967296] Packet `" ++ [233]%N ++ runes_of_ascii "`
+    , match chars
+//	t
+// packet A { u8 x, }
+as
+    // `tick` ""quote"" 'q'
+    _x	{ ""{,}"":	metadata , }
+    ,
+//	t
+//
+repeat	string Z9_
+, } , }
+")).
+Eval vm_compute in ("<<<M164>>>" ++ check (runes_of_ascii "packet roots
+{ match charz as u128  {
+65535
+:
+calculatedFrom , } ,@lengthOf( T ) @lengthOf(
+    len
+    )
+/// triple
+//	t
+@rightPad ( '0' )u64	repeatCount @calculatedFrom( ""abc""
+    ) `line1
+line2`
+, } packet string_ { @tag(00 // trailing space 
+) @tag( //x
+4294967296 ) i8
+msg_type ,f32 x	, @calculatedFrom( """ ++ [28040; 24687]%N ++ runes_of_ascii """ ) float32
+// c
+// trailing space 
+leftPad
+@lengthOf(  T ) ,repeatCount string_ ,
+// packet A { u8 x, }
+// " ++ [128512]%N ++ runes_of_ascii " emoji
+}
+MetaData o { // a // b
+} 	 ")).
+Eval vm_compute in ("<<<M630>>>" ++ check (runes_of_ascii "options { // " ++ [128512]%N ++ runes_of_ascii " emoji
+repeatCount = char[
+3 ];u8x =	255 rootA = '0'
+;
+leftPad =
+    // " ++ [27880; 37322]%N ++ runes_of_ascii "
+    7	; } packet T {
+float@lengthOf(  msg_type )`line1
+line2` ,
+    int16 o ,repeat
+zchar[ 00 ] MetaDataX `u8 x,` ,
+    @tag( 00	)
+repeat
+repeatCount	i64_ , falsey { repeat zchar charz`` ,} , f64 Logon
+    @lengthOf(options1
+    ) `// not a comment` ,  repeat f32 metadata
+, roots a1
+    , // " ++ [128512]%N ++ runes_of_ascii " emoji
+}MetaData
+    u8x{
+string Packet /// triple
+,
+}")).
+Eval vm_compute in ("<<<M4007>>>" ++ check (runes_of_ascii "MetaData float {
+    i64_ roots,
+    char[007] int,/// triple
+    msg_type rootA,
+    char[255] x_y_z `crlf
+    line`,
+    uint8x body,
 }
 
 options {
-    asx = zchar[3]
-    stringy = '\x00'
+    // " ++ [128512]%N ++ runes_of_ascii " emoji
+    msg_type = false
+}
+
+packet string_ {
+    o Pad,
+    zchar[0123456789] zchar @calculatedFrom(""CRC32""),
+    uint8 matchKey,
+}
+
+options {
+    //
+    T = f32;
+    options1 = """";
+    matchKey = """ ++ [233]%N ++ runes_of_ascii "t" ++ [233]%N ++ runes_of_ascii """;
+    x = ""x y""
+    packetx = ""x y""
+    //
+    // a // b
 }")).
-Eval vm_compute in ("<<<M1702>>>" ++ check (runes_of_ascii "packet
-A { match
-    k as	n
-{  [
-1 , 22
-, 
-""c c"",4 ,	5
-
-,  ""f""
-, 
-7
-    ] : B 2
+Eval vm_compute in ("<<<M208>>>" ++ check (runes_of_ascii "  packet
+asx { float @calculatedFrom( ""a\""b"" ) // packet A { u8 x, }
+,
+Pad msg_type ,
+@calculatedFrom(
+    ""CRC32"" // " ++ [128512]%N ++ runes_of_ascii " emoji
+) match chars	as //
+Foo
+    { ""1"" :	x_y_z , ""1""
+:	o , 4294967296  : tag 7
 :
-	C} ,
+trueish  ,
+""" ++ [28040; 24687]%N ++ runes_of_ascii """ // " ++ [27880; 37322]%N ++ runes_of_ascii "
+:
+Header },}MetaData trueish { u msg_type
+,	zchar[
+// 50% %s
+// 50% %s
+00 ] crc , f32
+    A `` ,
+    //	t
+    uint32 options1 , char[]
+    zchar `
+`	, // packet A { u8 x, }
+}")).
+Eval vm_compute in ("<<<M3790>>>" ++ check (runes_of_ascii "packet
 
-}
-")).
-Eval vm_compute in ("<<<M1617>>>" ++ check (runes_of_ascii "root packet P {
-    // c3
-    repeat string ss,
-    // c7
-    repeat u16 ns,// c11
-}
-// c12")).
-Eval vm_compute in ("<<<M1189>>>" ++ check (runes_of_ascii "MetaData float { float64 charz
-// c
-`
-` , } root packet chars { @rightPad ( '0' ) Foo , }")).
-Eval vm_compute in ("<<<M1400>>>" ++ check (runes_of_ascii "packet chars { // c
-} packet MetaDataX { @tag( 42 ) i16 string_ , repeat x `say ""hi""` , }")).
-Eval vm_compute in ("<<<M2016>>>" ++ check (runes_of_ascii "packet
+    MetaDataX { @tag( 10
 
-orderItem
-	{u8 a
+    ) 	 // " ++ [128512]%N ++ runes_of_ascii " emoji
+	@leftPad(	)
+	string 
+lengthOf// `tick` ""quote"" 'q'
+      @calculatedFrom(
+    ""packet"" 
+)
+
+,
+
+string
+    metadata
+`line1
+line2`
+
     ,
-} root
-	packet	newOrder 
-{ orderItem ,
+    @lengthOf(
+	options1
+)_x{
 
-    u8 
-x
-	, }
+zchar[ //
+10
+]
+
+    u128 
+
+    // @lengthOf(
+// @lengthOf(
+  `crlf
+line`
+	,
+
+    }, a1 body,	char[ 007 
+]
+    MetaDataX
+@calculatedFrom(  ""it's""
+
+) 
+//	t
+,}
+")).
+Eval vm_compute in ("<<<M1013>>>" ++ check (runes_of_ascii "// " ++ [27880; 37322]%N ++ runes_of_ascii "
+root
+packet trueish
+{leftPad //x
+x, stringy//
+@lengthOf( leftPad )`a\`
+    ,	@calculatedFrom( ""a	b"" ) As float , zchar[
+7 ] Logon@lengthOf(
+    u)
+    `" ++ [28040; 24687; 31867; 22411]%N ++ runes_of_ascii "`
+, @calculatedFrom( ""\n"")
+    repeat Packet ,//x
+match A as
+i8i8 { 10: int
+,[
+//x
+//
+00 ,	4294967296 ,
+//x
+//	t
+""1"" // trailing space 
+, 007 ]
+: asx
+10
+:u128  ,
+},} options
+    {
+    u128
+=//	t
+'\x00'
+}")).
+Eval vm_compute in ("<<<M3681>>>" ++ check (runes_of_ascii "// top
+packet A {
+    // c2
+    match packetx as BodyLength {
+        // c7
+        007 : A,
+        // c10
+        """ ++ [28040; 24687]%N ++ runes_of_ascii """ : x_y_z,
+        // c14
+        """ ++ [128512]%N ++ runes_of_ascii """ : crc,
+        // c17
+        [""{,}"", ""\n"", """ ++ [233]%N ++ runes_of_ascii "t" ++ [233]%N ++ runes_of_ascii """, ""x y"", ""a\""b""] : stringy,
+        // c31
+    },
+    // c33
+}
+
+// c34
+root packet i64_ {
+    // c38
+    repeat pack `100% of %d`,
+    // c42
+}
+// c43")).
+Eval vm_compute in ("<<<M3859>>>" ++ check (runes_of_ascii "MetaData u8x {
+    u32 metadata,
+}// packet A { u8 x, }
+
+MetaData calculatedFrom {
+    calculatedFrom repeatCount `// not a comment`,
+    roots options1,
+    zchar[1] i8i8,// `tick` ""quote"" 'q'
+    zchar[0123456789] i8i8,
+    i64 charz,
+    u8 f32a,
+}
+
+packet string_ {
+    /// triple
+    @calculatedFrom(""\" ++ [233]%N ++ runes_of_ascii """)
+    repeat stringy `it's`,
+}")).
+Eval vm_compute in ("<<<M75>>>" ++ check (runes_of_ascii "options {Packet
+= true ; f32a = u8
+    ; }packet
+    // `tick` ""quote"" 'q'
+    matchKey	{ @lengthOf( /// triple
+A
+)packetx ``
+    ,
+    string //
+BodyLength ,@tag( 42 ) float32
+Z9_
+@calculatedFrom(	""\n"" )
+`" ++ [28040; 24687; 31867; 22411]%N ++ runes_of_ascii "` , repeat zchar[	0123456789
+    // c
+    ]  chars ,int16 charz@lengthOf( body
+)
+`" ++ [233]%N ++ runes_of_ascii "` , repeat u8x msg_type
+, }
+")).
+Eval vm_compute in ("<<<M1156>>>" ++ check (runes_of_ascii "root	packet pack
+{ @calculatedFrom( ""CRC32""
+// 50% %s
+// c
+)	msg_type lengthOf,  string	float `u8 x,` ,
+// 50% %s
+// packet A { u8 x, }
+trueish@calculatedFrom(
+""// no comment"" ),// trailing space 
+f32a `doc` // `tick` ""quote"" 'q'
+, i64 Header @calculatedFrom(
+    ""abc""
+// c
+//	t
+)
+//	t
+//	t
+`line1
+line2` ,
+}
+")).
+Eval vm_compute in ("<<<M831>>>" ++ check (runes_of_ascii "// `tick` ""quote"" 'q'
+root  packet zchar
+{
+// @lengthOf(
+//x
+match packetx as//x
+u128{ 65535: f32a	""abc""
+: stringy ,	""// no comment"" :
+uint8x // a // b
+[
+    ""packet""
+] : msg_type
+, ""`tick`"":
+BodyLength
+00 :stringy
+, } ,}
+root
+    packet lengthOf
+{ @calculatedFrom(""packet"" )char[] trueish , }
 
 ")).
-Eval vm_compute in ("<<<M1130>>>" ++ check (runes_of_ascii "packet metadata { Logon // c
-{ A `" ++ [28040; 24687; 31867; 22411]%N ++ runes_of_ascii "` , tag o , } , zchar len `// not a comment` , }")).
-Eval vm_compute in ("<<<M2041>>>" ++ check (runes_of_ascii "packet A {
-    match k as n {
-        [1, ""bb"", 007, ""d""] : B,
-        2 : C,
+Eval vm_compute in ("<<<M3556>>>" ++ check (runes_of_ascii "packet As {
+    lengthOf {
+        crc {
+            i16 stringy @calculatedFrom(""packet""),
+            Z9_ {
+                MetaDataX @calculatedFrom(""a\\""),
+            },
+            repeat char[3] Packet,/// triple
+        },
+    },
+    @tag(1)
+    repeat Z9_,
+    char[] falsey,
+}")).
+Eval vm_compute in ("<<<M640>>>" ++ check (runes_of_ascii "root // packet A { u8 x, }
+packet u128 { string repeatCount @calculatedFrom(  """ ++ [128512]%N ++ runes_of_ascii """ )
+    //x
+    ,zchar[  3 ] rootA@calculatedFrom(
+""a\""b"") , @rightPad( ) @calculatedFrom( """ ++ [128512]%N ++ runes_of_ascii """ )@tag( 0123456789 ) Foo	{ char[] // 50% %s
+u8x @lengthOf( charz // " ++ [128512]%N ++ runes_of_ascii " emoji
+) //	t
+, A
+, }
+, }")).
+Eval vm_compute in ("<<<M1544>>>" ++ check (runes_of_ascii "// 50% %s
+packet	a1
+    { zchar[
+// a // b
+// 50% %s
+007 uint16
+T `it's`
+    ,@rightPad
+    // a // b
+    (
+'\x00')
+    o repeatCount , }  packet Logon {  }packet	Logon //x
+{ repeat // " ++ [128512]%N ++ runes_of_ascii " emoji
+uint16 u128
+    //
+    `a\`,
+falsey
+@calculatedFrom(""packet"" ) ,
+    } 	 ")).
+Eval vm_compute in ("<<<M1539>>>" ++ check (runes_of_ascii "// 50% %s
+packet	a1
+    { zchar[
+// a // b
+// 50% %s
+int64]
+T `it's`
+    ,@rightPad
+    // a // b
+    (
+'\x00')
+    o repeatCount , }  packet Logon {  }packet	Logon //x
+{ repeat // " ++ [128512]%N ++ runes_of_ascii " emoji
+uint16 u128
+    //
+    `a\`,
+falsey
+@calculatedFrom(""packet"" ) ,
+    } 	 ")).
+Eval vm_compute in ("<<<M1699>>>" ++ check (runes_of_ascii "// 50% %s
+packet	a1
+    { zchar[
+// a // b
+// 50% %s
+007]
+T `it's`
+    ,@rightPad
+    // a // b
+    (
+'\x00')
+    o repeatCount , }  packet Logon {  }packet	Logon //x
+{ repeat // " ++ [128512]%N ++ runes_of_ascii " emoji
+uint16 u128
+    //
+    `a\`,
+falsey" ++ [233]%N ++ runes_of_ascii "
+@calculatedFrom(""packet"" ) ,
+    } 	 ")).
+Eval vm_compute in ("<<<M1648>>>" ++ check (runes_of_ascii "// 50% %s
+packet	a1
+    { zchar[
+// a // b
+// 50% %s
+007]
+T `it's`
+    ,@rightPad
+    // a // b
+    (
+'\x00')
+    o repeatCount , }  packet Logon {  }packet	Logon //x
+{ repeat // " ++ [128512]%N ++ runes_of_ascii " emoji
+uint16 `a\`
+    //
+    u128,
+falsey
+@calculatedFrom(""packet"" ) ,
+    } 	 ")).
+Eval vm_compute in ("<<<M1521>>>" ++ check (runes_of_ascii "// 50% %s
+packet	
+    { zchar[
+// a // b
+// 50% %s
+007]
+T `it's`
+    ,@rightPad
+    // a // b
+    (
+'\x00')
+    o repeatCount , }  packet Logon {  }packet	Logon //x
+{ repeat // " ++ [128512]%N ++ runes_of_ascii " emoji
+uint16 u128
+    //
+    `a\`,
+falsey
+@calculatedFrom(""packet"" ) ,
+    } 	 ")).
+Eval vm_compute in ("<<<M1571>>>" ++ check (runes_of_ascii "// 50% %s
+packet	a1
+    { zchar[
+// a // b
+// 50% %s
+007]
+T `it's`
+    ,@rightPad
+    // a // b
+    (
+)
+    o repeatCount , }  packet Logon {  }packet	Logon //x
+{ repeat // " ++ [128512]%N ++ runes_of_ascii " emoji
+uint16 u128
+    //
+    `a\`,
+falsey
+@calculatedFrom(""packet"" ) ,
+    } 	 ")).
+Eval vm_compute in ("<<<M1680>>>" ++ check (runes_of_ascii "// 50% %s
+packet	a1
+    { zchar[
+// a // b
+// 50% %s
+007]
+T `it's`
+    ,@rightPad
+    // a // b
+    (
+'\x00')
+    o repeatCount , }  packet Logon {  }packet	Logon //x
+{ repeat // " ++ [128512]%N ++ runes_of_ascii " emoji
+uint16 u128
+    //
+    `a\`,
+falsey
+@calculatedFrom(""packet""")).
+Eval vm_compute in ("<<<M33>>>" ++ check (runes_of_ascii "root packet MetaDataX { } packet  uint8x
+{crc @calculatedFrom( ""a	b"") `it's` , repeat
+    string
+zchar `" ++ [233]%N ++ runes_of_ascii "`
+    // a // b
+    ,
+    match
+lengthOf as u { """"
+// c
+// `tick` ""quote"" 'q'
+: zchar ,
+}, @tag(  3 ) repeat  string f32a `it's` ,}
+")).
+Eval vm_compute in ("<<<M754>>>" ++ check (runes_of_ascii "options { msg_type
+=""a\\"" ;zchar = i64; }options
+{matchKey // a // b
+= ""a\\"" ;
+options1=0123456789 len = 3 ; i64_
+    = '\x00'; } packet Packet {
+    char[
+    // packet A { u8 x, }
+    4294967296
+] roots, }
+// `tick` ""quote"" 'q'
+")).
+Eval vm_compute in ("<<<M3996>>>" ++ check (runes_of_ascii "packet x {
+    string As,
+    char[65535] leftPad `crlf
+        line`,
+    i16 rootA @lengthOf(packetx) `
+        `,
+    repeat zchar T `" ++ [28040; 24687; 31867; 22411]%N ++ runes_of_ascii "`,
+}
+
+packet options1 {
+    // @lengthOf(
+    o ``,
+    // packet A { u8 x, }
+}")).
+Eval vm_compute in ("<<<M3959>>>" ++ check (runes_of_ascii "MetaData o {
+    char[] Header `
+        `,
+    stringy trueish,
+    Logon a1 `line1
+        line2`,
+}
+
+root packet uint8x {
+    @lengthOf(zchar)
+    @tag(4294967296)
+    @leftPad('\x00')
+    repeat BodyLength,
+}")).
+Eval vm_compute in ("<<<M4231>>>" ++ check (runes_of_ascii "root packet crc {
+    @tag(0123456789)
+    repeat int64 o,
+    @calculatedFrom(""1"")
+    match asx as pack {
+        [
+            0, 255, 4294967296, ""x y"", ""x y"",
+            42
+        ] : u8x,
     },
 }")).
-Eval vm_compute in ("<<<M1367>>>" ++ check (runes_of_ascii "packet o { repeat Logon uint8x , } options { asx = zchar[ 3
-// c
-] stringy = '\x00' }")).
-Eval vm_compute in ("<<<M1333>>>" ++ check (runes_of_ascii "MetaData body { i64 pack `it's` , } packet stringy { int16 calculatedFrom , } // c
-")).
-Eval vm_compute in ("<<<M1328>>>" ++ check (runes_of_ascii "MetaData body { i64 pack `it's` , } packet stringy { int16
-// c
-calculatedFrom , }")).
-Eval vm_compute in ("<<<M1447>>>" ++ check (runes_of_ascii "packet Inner {
-    u8 a,
-}
-root packet P {
-    repeat Inner items,
-    u8 x,
-}
-")).
-Eval vm_compute in ("<<<M799>>>" ++ check (runes_of_ascii "packet A {
-  match k as n {
-    [1, ""bb"", 007, ""d""] : B,
-    2 : C
-  },
-}")).
-Eval vm_compute in ("<<<M789>>>" ++ check (runes_of_ascii "packet A {
-  match k as n {
-    [""a"", 22, ""c c""] : B
-    2 : C
-  },
-}")).
-Eval vm_compute in ("<<<M1680>>>" ++ check (runes_of_ascii "
-root
+Eval vm_compute in ("<<<M4014>>>" ++ check (runes_of_ascii "
 
-packet 
-u128
+  packet
+A {u8 a
+,
+}
+    packet B	{
+    u16
+
+    b
+    , } root  packet	P
+{
+    u8 K1  , 
+u8
+
+K2
+
+,
+match K1
+
+as
+	M1
+{ 1: A ,
+    } , 
+match K2 as
+
+    M2	{
+	1:  B
+
+    , }
+    ,  }")).
+Eval vm_compute in ("<<<M4146>>>" ++ check (runes_of_ascii "packet A {
+    match k as n {
+        ""x\
+        y"" : B,
+        [""x\
+        y"", 1] : C,
+        [
+            1, 2, 3, 4, 5,
+            ""x\
+            y""
+        ] : D,
+    },
+}")).
+Eval vm_compute in ("<<<M844>>>" ++ check (runes_of_ascii "  options { a1 =""it's""As=true	Z9_ = 4294967296 // trailing space 
+roots = char[]
+    // packet A { u8 x, }
+    T
+= true} MetaData
+f32a {	uint8 MetaDataX //	t
+, a1 pack ,}
+")).
+Eval vm_compute in ("<<<M3945>>>" ++ check (runes_of_ascii "
+MetaData	MetaDataX	// packet A { u8 x, }
     {
-chars  // c
-	`it's`
+uint8 stringy  // `tick` ""quote"" 'q'
+`a\`
+	, 
+float32 	 // @lengthOf(
+
+f32a ,
+	u32 T
+
+,
+float32
+    uint8x
+,
+	}	// " ++ [27880; 37322]%N ++ runes_of_ascii "
+")).
+Eval vm_compute in ("<<<M4250>>>" ++ check (runes_of_ascii "packet leftPad {
+    //	t
+    pack rootA `// not a comment`,
+}
+
+MetaData Foo {
+    /// triple
+    trueish x `say ""hi""`,
+}
+
+packet a1 {
+    repeat pack body,//
+}")).
+Eval vm_compute in ("<<<M1273>>>" ++ check (runes_of_ascii "packet leftPad{ //	t
+pack
+rootA
+    `// not a comment`, }MetaData //	t
+Foo { /// triple
+trueish x `say ""hi""`
+, } packet	a1	{repeat
+pack  body, //
+}
+")).
+Eval vm_compute in ("<<<M8>>>" ++ check (runes_of_ascii "options{ Packet
+=  00 ;
+u128= true
+Pad // a // b
+=  '0' }	MetaData a1
+{ Z9_ Foo// 50% %s
+,
+string
+    tag ,
+msg_type
+chars // a // b
+, i8 uint8x, }")).
+Eval vm_compute in ("<<<M2108>>>" ++ check (runes_of_ascii "MetaData BodyLength
+{ int8 Foo
+, string
+    MetaDataX , float zchar ,string options1
+,asx string_, }
+packet u8x {Foo@lengthOf(charz )
+`" ++ [28040; 24687; 31867; 22411]%N ++ runes_of_ascii "`,  }
+")).
+Eval vm_compute in ("<<<M2197>>>" ++ check (runes_of_ascii "MetaData BodyLength
+{ int8 #Foo
+, string
+    MetaDataX , float zchar ,pack options1
+,asx string_, }
+packet u8x {Foo@lengthOf(charz )
+`" ++ [28040; 24687; 31867; 22411]%N ++ runes_of_ascii "`,  }
+")).
+Eval vm_compute in ("<<<M2132>>>" ++ check (runes_of_ascii "MetaData BodyLength
+{ int8 Foo
+, string
+    MetaDataX , float zchar ,pack options1
+,asx string_} ,
+packet u8x {Foo@lengthOf(charz )
+`" ++ [28040; 24687; 31867; 22411]%N ++ runes_of_ascii "`,  }
+")).
+Eval vm_compute in ("<<<M2170>>>" ++ check (runes_of_ascii "MetaData BodyLength
+{ int8 Foo
+, string
+    MetaDataX , float zchar ,pack options1
+,asx string_, }
+packet u8x {Foo@lengthOf(charz 
+`" ++ [28040; 24687; 31867; 22411]%N ++ runes_of_ascii "`,  }
+")).
+Eval vm_compute in ("<<<M2012>>>" ++ check (runes_of_ascii "
+packet leftPad {
+@leftPad( '0')
+u32
+i64_ `100% of %d` ,repeat// 50% %s
+i8 chars
     ,
+} MetaData
+    f32a f32a
+{ // packet A { u8 x, }
+}")).
+Eval vm_compute in ("<<<M2330>>>" ++ check (runes_of_ascii "options
+    {
+x_y_z// " ++ [27880; 37322]%N ++ runes_of_ascii "
+= 10 ; }
+packet body {
+    @calculatedFrom(
+// trailing space 
+// " ++ [27880; 37322]%N ++ runes_of_ascii "
+""1""
+)	match T as Foo
+    {
+255 :T , }
+,@tag(")).
+Eval vm_compute in ("<<<M2002>>>" ++ check (runes_of_ascii "
+packet leftPad {
+@leftPad( '0')
+u32
+i64_ `100% of %d` ,repeat// 50% %s
+i8 chars
+    ,
+} } MetaData
+    f32a
+{ // packet A { u8 x, }
+}")).
+Eval vm_compute in ("<<<M3828>>>" ++ check (runes_of_ascii "
+packet
+
+msg_type{ uint16 T  // a // b
+  @lengthOf(  i8i8
+) , repeat
+
+    i32
+	int
+,@lengthOf( 
+x_y_z
+	)
+
+    int64
+    As 
+,  }
+")).
+Eval vm_compute in ("<<<M1943>>>" ++ check (runes_of_ascii "
+packet leftPad {
+(@leftPad '0')
+u32
+i64_ `100% of %d` ,repeat// 50% %s
+i8 chars
+    ,
+} MetaData
+    f32a
+{ // packet A { u8 x, }
+}")).
+Eval vm_compute in ("<<<M2255>>>" ++ check (runes_of_ascii "options
+    {
+x_y_z// " ++ [27880; 37322]%N ++ runes_of_ascii "
+= 10 ; }
+packet body @calculatedFrom(
+    {
+// trailing space 
+// " ++ [27880; 37322]%N ++ runes_of_ascii "
+""1""
+)	match T as Foo
+    {
+255 :T , }
+,}")).
+Eval vm_compute in ("<<<M2053>>>" ++ check (runes_of_ascii "MetaData {
+{ int8 Foo
+, string
+    MetaDataX , float zchar ,pack options1
+,asx string_, }
+packet u8x {Foo@lengthOf(charz )
+`" ++ [28040; 24687; 31867; 22411]%N ++ runes_of_ascii "`,  }
+")).
+Eval vm_compute in ("<<<M2228>>>" ++ check (runes_of_ascii "options
+    {
+x_y_z// " ++ [27880; 37322]%N ++ runes_of_ascii "
+=  ; }
+packet body {
+    @calculatedFrom(
+// trailing space 
+// " ++ [27880; 37322]%N ++ runes_of_ascii "
+""1""
+)	match T as Foo
+    {
+255 :T , }
+,}")).
+Eval vm_compute in ("<<<M2403>>>" ++ check (runes_of_ascii "MetaData
+    calculatedFrom
+{ zchar[  10 $ ]
+    As`tab	here`,
+    }// trailing space 
+options  { roots ='\x00' ; } packet A
+{ }
+")).
+Eval vm_compute in ("<<<M2406>>>" ++ check (runes_of_ascii "MetaData
+    calculatedFrom
+{ zchar[  ] 10
+    As`tab	here`,
+    }// trailing space 
+options  { roots ='\x00' ; } packet A
+{ }
+")).
+Eval vm_compute in ("<<<M2307>>>" ++ check (runes_of_ascii "options
+    {
+x_y_z// " ++ [27880; 37322]%N ++ runes_of_ascii "
+= 10 ; }
+packet body {
+    @calculatedFrom(
+// trailing space 
+// " ++ [27880; 37322]%N ++ runes_of_ascii "
+""1""
+)	match T as Foo
+    {
+255")).
+Eval vm_compute in ("<<<M1129>>>" ++ check (runes_of_ascii "root packet pack
+// " ++ [128512]%N ++ runes_of_ascii " emoji
+//x
+{ Header { matchKey
+@lengthOf( metadata ) `doc` ,
+zchar[
+    4294967296 ]  stringy ,}, }
+")).
+Eval vm_compute in ("<<<M813>>>" ++ check (runes_of_ascii "
+packet T { repeat asx `// not a comment`, @tag( 0 )
+    u128 { packetx	`line1
+line2` , }
+    , int16 As
+`u8 x,` , }
+")).
+Eval vm_compute in ("<<<M3002>>>" ++ check (runes_of_ascii "packet A {
+  match k as n {
+    [""a"", ""bb"", ""c c"", ""d"", ""e"", ""f"", ""g"", ""h"", ""i"", ""j"", ""k"", ""l""] : B
+    2 : C
+  },
+}")).
+Eval vm_compute in ("<<<M1839>>>" ++ check (runes_of_ascii "packet o roots
+    { `it's`
+// trailing space 
+//x
+, char[ 42
+    ]  A, // " ++ [27880; 37322]%N ++ runes_of_ascii "
+f64
+repeatCount
+    `crlf
+line`
+,}")).
+Eval vm_compute in ("<<<M3826>>>" ++ check (runes_of_ascii "root packet asx {
+    packetx u128 `a\`,
+    repeat i32 x,
+}
+
+options {
+    pack = true
+    As = """ ++ [128512]%N ++ runes_of_ascii """;
+}
+// a // b")).
+Eval vm_compute in ("<<<M3009>>>" ++ check (runes_of_ascii "packet A {
+  match k as n {
+    [""a"", ""bb"", 007, ""d"", ""e"", 66, ""g"", ""h"", 9, ""j"", ""k"", 12] : B,
+    2 : C
+  },
+}")).
+Eval vm_compute in ("<<<M3218>>>" ++ check (runes_of_ascii "// top
+root
+    // c0
+packet // c1a
+  // c1b
+u128
+    // c2
+{
+    // c3
+chars `doc` ,
+    // c6
+}
+    // c7
+")).
+Eval vm_compute in ("<<<M3779>>>" ++ check (runes_of_ascii "packet  A
+
+{
+match
+    k  as
+	n{	[
+	1 ,	""bb""
+,  007 
+, 
+""d""
+,5 ,
+    ""f""
+,
+    7
+]:B
+2
+
+    : C 
+}
+,}")).
+Eval vm_compute in ("<<<M3008>>>" ++ check (runes_of_ascii "packet A {
+  match k as n {
+    [1, 22, ""c c"", 4, 5, ""f"", 7, 8, ""i"", 10, 11, ""l""] : B
+    2 : C
+  },
+}")).
+Eval vm_compute in ("<<<M3744>>>" ++ check (runes_of_ascii "MetaData
+
+    Foo  {zchar[
+	0 
+]matchKey  ,}
+
+    options
+{ lengthOf =i32 u
+= 00 ;	// c
+    }")).
+Eval vm_compute in ("<<<M2978>>>" ++ check (runes_of_ascii "packet A {
+  match k as n {
+    [1, ""bb"", 007, ""d"", 5, ""f"", 7, ""h"", 9, ""j""] : B
+    2 : C
+  },
+}")).
+Eval vm_compute in ("<<<M2967>>>" ++ check (runes_of_ascii "packet A {
+  match k as n {
+    [""a"", 22, ""c c"", 4, ""e"", 66, ""g"", 8, ""i""] : B
+    2 : C
+  },
+}")).
+Eval vm_compute in ("<<<M1420>>>" ++ check (runes_of_ascii "packet
+i64
+{ match repeatCount as	calculatedFrom
+{ [65535 ]	: As	,
+} ,}
+// trailing space 
+")).
+Eval vm_compute in ("<<<M1507>>>" ++ check (runes_of_ascii "packet
+T
+{ match repeatCount as	%calculatedFrom
+{ [65535 ]	: As	,
+} ,}
+// trailing space 
+")).
+Eval vm_compute in ("<<<M1469>>>" ++ check (runes_of_ascii "packet
+T
+{ match repeatCount as	calculatedFrom
+{ [65535 ]	As :	,
+} ,}
+// trailing space 
+")).
+Eval vm_compute in ("<<<M1492>>>" ++ check (runes_of_ascii "packet
+T
+{ match repeatCount as	calculatedFrom
+{ [65535 ]	: As	,
+} ,
+// trailing space 
+")).
+Eval vm_compute in ("<<<M1793>>>" ++ check (runes_of_ascii "options{  lengthOf =//x
+i16;
+    BodyLength = 0 ; pack
+= false;
+    A = MetaData 3 ] }")).
+Eval vm_compute in ("<<<M1828>>>" ++ check (runes_of_ascii "options{  lengthOf =//x
+i16;
+    BodyLength = 0 ; caf" ++ [233]%N ++ runes_of_ascii "_1
+= false;
+    A = char[ 3 ] }")).
+Eval vm_compute in ("<<<M1412>>>" ++ check (runes_of_ascii "root packet SimpleMessage {
+	uint16 MsgType `" ++ [28040; 24687; 31867; 22411]%N ++ runes_of_ascii "`,
+	string JsonBody `Json" ++ [23383; 31526; 20018; 28040; 24687; 20307]%N ++ runes_of_ascii "`,
+}")).
+Eval vm_compute in ("<<<M439>>>" ++ check (runes_of_ascii "MetaData
+    // `tick` ""quote"" 'q'
+    As// c
+{ f32a options1,crc
+    Logon ,
+    }")).
+Eval vm_compute in ("<<<M2942>>>" ++ check (runes_of_ascii "packet A {
+  match k as n {
+    [1, 22, ""c c"", 4, 5, ""f"", 7] : B,
+    2 : C
+  },
+}")).
+Eval vm_compute in ("<<<M4150>>>" ++ check (runes_of_ascii "
+MetaData
+
+    len	{	u32	Pad`two words`  // packet A { u8 x, }
+  , 
+} 	 // c
+")).
+Eval vm_compute in ("<<<M3257>>>" ++ check (runes_of_ascii "MetaData Foo { zchar[ 0 ] matchKey // c
+, } options { lengthOf = i32 u = 00 ; }")).
+Eval vm_compute in ("<<<M2930>>>" ++ check (runes_of_ascii "packet A {
+  match k as n {
+    [1, 22, ""c c"", 4, 5, ""f""] : B
+    2 : C
+  },
+}")).
+Eval vm_compute in ("<<<M2905>>>" ++ check (runes_of_ascii "packet A {
+  match k as n {
+    [""a"", ""bb"", 007, ""d""] : B,
+    2 : C
+  },
+}")).
+Eval vm_compute in ("<<<M892>>>" ++ check (runes_of_ascii "packet a1
+{
+    /// triple
+    string_@lengthOf(As ) `
+` , // " ++ [128512]%N ++ runes_of_ascii " emoji
+}")).
+Eval vm_compute in ("<<<M417>>>" ++ check (runes_of_ascii "
+packet
+Logon { // c
+crc @lengthOf(
+matchKey ) `line1
+line2` ,
+    }
+
+")).
+Eval vm_compute in ("<<<M2890>>>" ++ check (runes_of_ascii "packet A {
+  match k as n {
+    [1, 22, ""c c""] : B,
+    2 : C
+  },
+}")).
+Eval vm_compute in ("<<<M2946>>>" ++ check (runes_of_ascii "packet A { Inner { match k as n { [1,22,007,4,5,66,7] : B, }, }, }")).
+Eval vm_compute in ("<<<M3878>>>" ++ check (runes_of_ascii "packet
+	A  { B
+    b
+
+    `
+x` ,B `
+x`	,repeat B bs 
+`
+x` ,
+} ")).
+Eval vm_compute in ("<<<M361>>>" ++ check (runes_of_ascii "
+root packet Pad { options1
+@lengthOf(	f32a/// triple
+), }
+")).
+Eval vm_compute in ("<<<M3313>>>" ++ check (runes_of_ascii "packet u8x { } MetaData crc { char[ 4294967296 ] Foo , // c
+}")).
+Eval vm_compute in ("<<<M3739>>>" ++ check (runes_of_ascii "
+MetaData
+	x_y_z  {
+    zchar[
+
+3
+] // c
+
+body
+,
 
     }
 ")).
-Eval vm_compute in ("<<<M949>>>" ++ check (runes_of_ascii "packet A {
-    B b `
-x`,
-    B `
-x`,
-    repeat B bs `
-x`,
-}")).
-Eval vm_compute in ("<<<M1288>>>" ++ check (runes_of_ascii "packet x { @rightPad ( ) repeat // c
-roots Logon `doc` , }")).
-Eval vm_compute in ("<<<M2061>>>" ++ check (runes_of_ascii "  MetaData
-M
-{
+Eval vm_compute in ("<<<M3357>>>" ++ check (runes_of_ascii "
 
-u8 x`
-x`
+  root
 
-    ,
-	T	t `
-x`
-    ,
-}
+    packet  P	{ repeat
+
+char
+cs ,	u8 x
+	,}
 
 ")).
-Eval vm_compute in ("<<<M1727>>>" ++ check (runes_of_ascii "MetaData int {
-    string f32a `two words`,
-}//")).
-Eval vm_compute in ("<<<M1757>>>" ++ check (runes_of_ascii "root packet u128 {
-    chars `it's`,// c
-}")).
-Eval vm_compute in ("<<<M1944>>>" ++ check (runes_of_ascii "  packet
-A
-{u8
-x 
-`d" ++ [8192]%N ++ runes_of_ascii "`  , 	 // c" ++ [8192]%N ++ runes_of_ascii "
-
-}
+Eval vm_compute in ("<<<M310>>>" ++ check (runes_of_ascii "root packet
+    falsey { int16 i8i8 ,
+    } // a // b")).
+Eval vm_compute in ("<<<M1093>>>" ++ check (runes_of_ascii "root packet BodyLength{ zchar[ 3 ] u8x `" ++ [28040; 24687; 31867; 22411]%N ++ runes_of_ascii "` ,	}
 ")).
-Eval vm_compute in ("<<<M1661>>>" ++ check (runes_of_ascii "packet A {
+Eval vm_compute in ("<<<M3663>>>" ++ check (runes_of_ascii "options {
+    rootA = ""abc"";
+    pack = false;
+}")).
+Eval vm_compute in ("<<<M1301>>>" ++ check (runes_of_ascii "packet T { @tag(
+    00 ) uint8 MetaDataX ,}
+")).
+Eval vm_compute in ("<<<M2570>>>" ++ check (runes_of_ascii "packet A { repeat x @calculatedFrom(""c""), }")).
+Eval vm_compute in ("<<<M3028>>>" ++ check (runes_of_ascii "MetaData M {
     u8 x `
-        x`,
+`,
+    T t `
+`,
 }")).
-Eval vm_compute in ("<<<M1726>>>" ++ check (runes_of_ascii "options {
-    i64_ = ""`tick`""
+Eval vm_compute in ("<<<M4282>>>" ++ check (runes_of_ascii "packet
+	u8x
+{} // packet A { u8 x, }
+ 
+")).
+Eval vm_compute in ("<<<M1121>>>" ++ check (runes_of_ascii "MetaData
+leftPad{ }MetaData float	{	}
+")).
+Eval vm_compute in ("<<<M2615>>>" ++ check (runes_of_ascii "packet A { match k as n { [] : B }, }")).
+Eval vm_compute in ("<<<M3662>>>" ++ check (runes_of_ascii "options {
+    trueish = char[255];
 }")).
-Eval vm_compute in ("<<<M740>>>" ++ check (runes_of_ascii "z" ++ [65533]%N ++ runes_of_ascii "u" ++ [65533; 65533; 65533; 65533; 65533]%N ++ runes_of_ascii "}<i" ++ [65533]%N ++ runes_of_ascii "R" ++ [65533; 65533]%N ++ runes_of_ascii "P" ++ [65533]%N ++ runes_of_ascii "6" ++ [65533]%N ++ runes_of_ascii "NL" ++ [65533; 65533]%N ++ runes_of_ascii "(" ++ [65533; 65533; 28; 65533]%N)).
-Eval vm_compute in ("<<<M1170>>>" ++ check (runes_of_ascii "root packet pack
+Eval vm_compute in ("<<<M1809>>>" ++ check (runes_of_ascii "options{  lengthOf =//x
+i16;
+    B")).
+Eval vm_compute in ("<<<M26>>>" ++ check (runes_of_ascii "packet len
+{
+} MetaData crc	{ }")).
+Eval vm_compute in ("<<<M738>>>" ++ check (runes_of_ascii "root
+packet tag { } // " ++ [128512]%N ++ runes_of_ascii " emoji")).
+Eval vm_compute in ("<<<M3094>>>" ++ check (runes_of_ascii "packet A {
+ u8 x `d `, // c 
+}")).
+Eval vm_compute in ("<<<M3351>>>" ++ check (runes_of_ascii "options { u8x = false }
 // c
-{ }")).
-Eval vm_compute in ("<<<M1056>>>" ++ check (runes_of_ascii "packet A {
-}
-// c x")).
-Eval vm_compute in ("<<<M1016>>>" ++ check (runes_of_ascii "packet A {
-}
-// c" ++ [8239]%N)).
-Eval vm_compute in ("<<<M1019>>>" ++ check (runes_of_ascii "packet A {
-}// c" ++ [8287]%N)).
-Eval vm_compute in ("<<<M749>>>" ++ check (runes_of_ascii "C]LW::;w*;")).
-Eval vm_compute in ("<<<M1025>>>" ++ check (runes_of_ascii "// c" ++ [11]%N)).
+")).
+Eval vm_compute in ("<<<M4389>>>" ++ check (runes_of_ascii "// a // b
+packet trueish {
+}")).
+Eval vm_compute in ("<<<M2585>>>" ++ check (runes_of_ascii "packet A { u8 x `d` `e`, }")).
+Eval vm_compute in ("<<<M963>>>" ++ check (runes_of_ascii "packet	charz { Header, }")).
+Eval vm_compute in ("<<<M2777>>>" ++ check (runes_of_ascii ")}" ++ [65533; 65533]%N ++ runes_of_ascii "Nw" ++ [65533; 65533; 65533]%N ++ runes_of_ascii "N" ++ [65533; 65533]%N ++ runes_of_ascii "%" ++ [65533]%N ++ runes_of_ascii "g" ++ [65533]%N ++ runes_of_ascii "+Y" ++ [65533; 65533; 12; 65533]%N ++ runes_of_ascii "r")).
+Eval vm_compute in ("<<<M2583>>>" ++ check (runes_of_ascii "packet A { x `d` y, }")).
+Eval vm_compute in ("<<<M498>>>" ++ check (runes_of_ascii "packet
+packetx{ }
+
+")).
+Eval vm_compute in ("<<<M1729>>>" ++ check (runes_of_ascii "options{  lengthOf")).
+Eval vm_compute in ("<<<M3148>>>" ++ check (runes_of_ascii "// c" ++ [11]%N ++ runes_of_ascii "
+packet A {
+}")).
+Eval vm_compute in ("<<<M2857>>>" ++ check (runes_of_ascii "@lengthOf( string")).
+Eval vm_compute in ("<<<M2661>>>" ++ check (runes_of_ascii "MetaData M M { }")).
+Eval vm_compute in ("<<<M2638>>>" ++ check (runes_of_ascii "packet A { } ;")).
+Eval vm_compute in ("<<<M2823>>>" ++ check (runes_of_ascii ", : MetaData")).
+Eval vm_compute in ("<<<M2496>>>" ++ check (runes_of_ascii "@lengthOf")).
+Eval vm_compute in ("<<<M2471>>>" ++ check (runes_of_ascii "repeats")).
+Eval vm_compute in ("<<<M3176>>>" ++ check (runes_of_ascii "// c x")).
+Eval vm_compute in ("<<<M3101>>>" ++ check (runes_of_ascii "// c" ++ [160]%N)).
+Eval vm_compute in ("<<<M2546>>>" ++ check (runes_of_ascii "A1b2")).
+Eval vm_compute in ("<<<M2540>>>" ++ check (runes_of_ascii "a.b")).
+Eval vm_compute in ("<<<M2562>>>" ++ check (runes_of_ascii "a" ++ [233]%N)).
